@@ -1,6 +1,6 @@
 (* C16: proofs about the models of Cxx/C16_Defs.v, for every tree (= every refinement history),
    every block count, every lattice position. *)
-From Coq Require Import ZArith List Bool Lia Znumtheory.
+From Coq Require Import ZArith List Bool Lia Znumtheory FinFun.
 From CMI Require Import Cxx.C16_Defs.
 Import ListNotations.
 Local Open Scope Z_scope.
@@ -65,7 +65,7 @@ Proof. induction 1; cbn [code]; lia. Qed.
 Lemma code_range p : digits p -> P8 (Z.of_nat (length p)) <= code p < 2 * P8 (Z.of_nat (length p)).
 Proof.
   induction 1 as [|d q Hd Hq IH]; cbn [code length].
-  - rewrite P8_0. lia.
+  - change (P8 (Z.of_nat 0)) with 1. lia.
   - rewrite Nat2Z.inj_succ. unfold Z.succ. rewrite P8_succ by lia. lia.
 Qed.
 
@@ -198,7 +198,7 @@ Lemma first_key_spec t : forall level, 0 <= level ->
   first_key t level = P8 level * code (first_leaf t).
 Proof.
   induction t as [|c0 IH0 c1 _ c2 _ c3 _ c4 _ c5 _ c6 _ c7 _]; intros level Hl.
-  - cbn [first_key]. unfold first_leaf. cbn. rewrite shl_P8 by lia. lia.
+  - cbn [first_key]. unfold first_leaf. cbn [leaves hd code]. rewrite shl_P8 by lia. lia.
   - cbn [first_key]. rewrite IH0 by lia. unfold first_leaf at 2. cbn [leaves].
     destruct (leaves_first c0) as [rest E]. rewrite E. cbn [map app hd code].
     rewrite P8_succ by lia. lia.
@@ -224,7 +224,6 @@ Proof. repeat split; intros ->; reflexivity. Qed.
 Lemma next_key_node_case c0 c1 c2 c3 c4 c5 c6 c7 d cd level low q m2 :
   0 <= level -> 0 <= low < P8 level -> 0 <= d < 8 -> digits q ->
   pick d c0 c1 c2 c3 c4 c5 c6 c7 = cd ->
-  (forall m1, True -> True) ->
   next_key cd ((low + P8 level * d) + P8 (level + 1) * code q) (level + 1) =
     match m2 with [] => MAXKEY32 | q' :: _ => (low + P8 level * d) + P8 (level + 1) * code q' end ->
   Forall digits m2 ->
@@ -235,7 +234,7 @@ Lemma next_key_node_case c0 c1 c2 c3 c4 c5 c6 c7 d cd level low q m2 :
           else low + P8 level * code ((d + 1) :: first_leaf (pick (d + 1) c0 c1 c2 c3 c4 c5 c6 c7))
   end.
 Proof.
-  intros Hl Hlow Hd Hq Hpick _ IH Hm2.
+  intros Hl Hlow Hd Hq Hpick IH Hm2.
   cbn [next_key code].
   destruct (digit_extract level low d (code q) Hl Hlow Hd) as [E1 E2]. cbv zeta in E1, E2.
   rewrite E1, E2, Hpick.
@@ -276,7 +275,7 @@ Proof.
           (pose proof (P8_pos level Hl); rewrite P8_succ by lia; nia);
         specialize (IHc R m1 q m2 Em);
         rewrite (next_key_node_case c0 c1 c2 c3 c4 c5 c6 c7 d c level low q m2 Hl Hlow ltac:(lia) Hq
-                   eq_refl (fun _ x => x) IHc Hm2);
+                   eq_refl IHc Hm2);
         destruct m2 as [|q' m2']; cbn [map app concat]; [|reflexivity];
         cbn [Z.eqb Pos.eqb pick Z.add Pos.add Pos.succ];
         try (match goal with |- context [first_leaf ?c'] =>
@@ -285,4 +284,1484 @@ Proof.
       end
     | cbn [app] in EL; injection EL as ? EL; subst ]).
     destruct La; discriminate.
+Qed.
+
+(* ------------------------------------------------------------------------- *)
+(* enumeration                                                                *)
+
+(* a successor function that follows a list and ends with the sentinel enumerates the list *)
+Lemma iterate_follows {A} (f : A -> Z) (next : Z -> Z) (stop : Z) (l : list A) :
+  (forall x, In x l -> f x <> stop) ->
+  (forall l1 x l2, l = l1 ++ x :: l2 -> next (f x) = match l2 with [] => stop | y :: _ => f y end) ->
+  forall l1 x l2 fuel, l = l1 ++ x :: l2 -> (length (x :: l2) < fuel)%nat ->
+  iterate next stop fuel (f x) = map f (x :: l2).
+Proof.
+  intros Hne Hnext l1 x l2. revert l1 x.
+  induction l2 as [|y l2 IH]; intros l1 x fuel E Hf.
+  - destruct fuel as [|[|fuel]]; cbn [length] in Hf; try lia.
+    cbn [iterate map].
+    assert (Hx : f x <> stop) by (apply Hne; rewrite E; apply in_elt).
+    apply Z.eqb_neq in Hx. rewrite Hx. rewrite (Hnext _ _ _ E). rewrite Z.eqb_refl. reflexivity.
+  - destruct fuel as [|fuel]; cbn [length] in Hf; [lia|].
+    cbn [iterate].
+    assert (Hx : f x <> stop) by (apply Hne; rewrite E; apply in_elt).
+    apply Z.eqb_neq in Hx. rewrite Hx. rewrite (Hnext _ _ _ E).
+    cbn [map]. f_equal.
+    apply (IH (l1 ++ [x])); [rewrite <- app_assoc; exact E|cbn [length] in *; lia].
+Qed.
+
+Lemma code_not_sentinel p : digits p -> code p <> MAXKEY32.
+Proof.
+  intros Hp. pose proof (enc_range 0 0 p ltac:(lia) ltac:(rewrite P8_0; lia) Hp) as H.
+  rewrite P8_0 in H. replace (0 + 1 * code p) with (code p) in H by lia.
+  eapply not_sentinel; [|exact H]. lia.
+Qed.
+
+Theorem enumerate_leaves t fuel :
+  (length (leaves t) < fuel)%nat -> enumerate fuel t = map code (leaves t).
+Proof.
+  intros Hf. unfold enumerate. rewrite first_key_spec by lia. rewrite P8_0, Z.mul_1_l.
+  destruct (leaves_first t) as [rest E].
+  rewrite E in *.
+  apply (iterate_follows code (fun k => next_key t k 0) MAXKEY32 (leaves t)) with (l1 := []).
+  - intros x Hx. apply code_not_sentinel. eapply in_leaves_digits; eauto.
+  - intros l1 x l2 El. pose proof (next_key_spec t 0 0 ltac:(lia) ltac:(rewrite P8_0; lia) l1 x l2 El) as H.
+    rewrite P8_0 in H. replace (0 + 1 * code x) with (code x) in H by lia. rewrite H.
+    destruct l2; [reflexivity|lia].
+  - rewrite E. reflexivity.
+  - exact Hf.
+Qed.
+
+(* every cell is visited exactly once: the keys are pairwise different *)
+Lemma NoDup_map_cons d (l : list path) : NoDup l -> NoDup (map (cons d) l).
+Proof. intros H. apply FinFun.Injective_map_NoDup; [|exact H]. intros a b E. injection E. auto. Qed.
+
+Lemma NoDup_app_intro {A} (l1 l2 : list A) :
+  NoDup l1 -> NoDup l2 -> (forall x, In x l1 -> In x l2 -> False) -> NoDup (l1 ++ l2).
+Proof.
+  induction l1 as [|a l1 IH]; intros H1 H2 Hd; [exact H2|].
+  cbn. inversion H1; subst. constructor.
+  - rewrite in_app_iff. intros [Hi|Hi]; [contradiction|]. apply (Hd a); [left; reflexivity|exact Hi].
+  - apply IH; auto. intros x Hx1 Hx2. apply (Hd x); [right; exact Hx1|exact Hx2].
+Qed.
+
+Lemma in_map_cons d e q (l : list path) : In (e :: q) (map (cons d) l) -> e = d /\ In q l.
+Proof. intros H. apply in_map_iff in H. destruct H as [x [E Hx]]. injection E as <- <-. auto. Qed.
+
+Lemma leaves_NoDup t : NoDup (leaves t).
+Proof.
+  induction t as [|c0 IH0 c1 IH1 c2 IH2 c3 IH3 c4 IH4 c5 IH5 c6 IH6 c7 IH7].
+  - cbn. constructor; [intros []|constructor].
+  - cbn [leaves].
+    repeat (apply NoDup_app_intro; [apply NoDup_map_cons; assumption| |
+      intros x Hx1 Hx2; destruct x as [|e q]; [apply in_map_iff in Hx1; destruct Hx1 as [? [? _]]; discriminate|];
+      apply in_map_cons in Hx1; destruct Hx1 as [-> _];
+      rewrite ?in_app_iff in Hx2;
+      repeat (destruct Hx2 as [Hx2|Hx2]; [apply in_map_cons in Hx2; destruct Hx2 as [Hx2 _]; discriminate|]);
+      apply in_map_cons in Hx2; destruct Hx2 as [Hx2 _]; discriminate]).
+    apply NoDup_map_cons; assumption.
+Qed.
+
+Theorem keys_NoDup t : NoDup (map code (leaves t)).
+Proof.
+  pose proof (leaves_NoDup t) as H. pose proof (leaves_digits t) as D.
+  induction H as [|p l Hn Hl IH]; cbn [map]; [constructor|].
+  inversion D; subst. constructor; [|apply IH; assumption].
+  intros Hi. apply in_map_iff in Hi. destruct Hi as [q [E Hq]].
+  assert (q = p) by (apply code_inj; auto; eapply (proj1 (Forall_forall _ _)); eauto).
+  subst. contradiction.
+Qed.
+
+Lemma ncells_leaves t : ncells t = Z.of_nat (length (leaves t)).
+Proof.
+  induction t as [|c0 IH0 c1 IH1 c2 IH2 c3 IH3 c4 IH4 c5 IH5 c6 IH6 c7 IH7]; [reflexivity|].
+  cbn [ncells leaves]. rewrite !app_length, !map_length. unfold path in *. lia.
+Qed.
+
+(* width of the keys: the marker bit of a cell on level n is bit 3n *)
+Theorem key_width t p : In p (leaves t) -> (depth t <= 10)%nat -> 1 <= code p < 2 ^ 31.
+Proof.
+  intros Hp Hd. pose proof (in_leaves_digits t p Hp) as Dp.
+  pose proof (proj1 (Forall_forall _ _) (leaves_length t) p Hp) as Hlen. cbv beta in Hlen.
+  pose proof (code_range p Dp) as Hr. split; [apply code_pos; exact Dp|].
+  assert (P8 (Z.of_nat (length p)) <= P8 10) by (unfold P8; apply Z.pow_le_mono_r; lia).
+  change (P8 10) with 1073741824 in *. change (2 ^ 31) with 2147483648. lia.
+Qed.
+
+(* ------------------------------------------------------------------------- *)
+(* geometry: one axis                                                         *)
+
+Definition okside (n : nat) (s : Z) : Prop := exists k, 0 < k /\ s = k * 2 ^ Z.of_nat n.
+
+Lemma okside_pos n s : okside n s -> 0 < s.
+Proof. intros [k [Hk ->]]. assert (0 < 2 ^ Z.of_nat n) by (apply Z.pow_pos_nonneg; lia). nia. Qed.
+
+Lemma okside_le n m s : (m <= n)%nat -> okside n s -> okside m s.
+Proof.
+  intros Hmn [k [Hk ->]]. exists (k * 2 ^ (Z.of_nat n - Z.of_nat m)). split.
+  - assert (0 < 2 ^ (Z.of_nat n - Z.of_nat m)) by (apply Z.pow_pos_nonneg; lia). nia.
+  - rewrite <- Z.mul_assoc, <- Z.pow_add_r by lia. do 2 f_equal. lia.
+Qed.
+
+Lemma okside_half n s : okside (S n) s -> okside n (s / 2) /\ s = 2 * (s / 2).
+Proof.
+  intros [k [Hk ->]]. rewrite Nat2Z.inj_succ, Z.pow_succ_r by lia.
+  replace (k * (2 * 2 ^ Z.of_nat n)) with ((k * 2 ^ Z.of_nat n) * 2) by lia.
+  rewrite Z.div_mul by lia. split; [exists k; auto|lia].
+Qed.
+
+Lemma child_idx_char p a s j :
+  0 < s -> s = 2 * (s / 2) -> (j = 0 \/ j = 1) ->
+  (a + j * (s / 2) <= p < a + j * (s / 2) + s / 2 <-> (a <= p < a + s /\ child_idx p a s = j)).
+Proof.
+  intros Hs He Hj. unfold child_idx. set (h := s / 2) in *.
+  assert (Hh : 0 < h) by lia.
+  rewrite He. rewrite Z.div_mul_cancel_l by lia.
+  split.
+  - intros H. split; [destruct Hj; subst j; lia|].
+    symmetry. apply Z.div_unique with (r := p - a - j * h); [left; lia|lia].
+  - intros [H E]. pose proof (Z.div_mod (p - a) h ltac:(lia)) as DM.
+    pose proof (Z.mod_pos_bound (p - a) h Hh) as MB. rewrite E in DM. lia.
+Qed.
+
+Lemma child_idx_range p a s :
+  0 < s -> s = 2 * (s / 2) -> a <= p < a + s -> child_idx p a s = 0 \/ child_idx p a s = 1.
+Proof.
+  intros Hs He H. unfold child_idx. set (h := s / 2) in *. rewrite He.
+  rewrite Z.div_mul_cancel_l by lia.
+  assert (0 <= (p - a) / h) by (apply Z.div_pos; lia).
+  assert ((p - a) / h < 2) by (apply Z.div_lt_upper_bound; lia). lia.
+Qed.
+
+(* ------------------------------------------------------------------------- *)
+(* geometry: boxes                                                            *)
+
+Definition okbox (n : nat) (b : box) : Prop := okside n (bsx b) /\ okside n (bsy b) /\ okside n (bsz b).
+
+Lemma okbox_le n m b : (m <= n)%nat -> okbox n b -> okbox m b.
+Proof. intros H [A [B C]]. repeat split; eapply okside_le; eauto. Qed.
+
+Lemma okbox_sub n b ix iy iz : okbox (S n) b -> okbox n (sub_box b ix iy iz).
+Proof. intros [A [B C]]. unfold okbox, sub_box; cbn. repeat split; apply okside_half; assumption. Qed.
+
+Lemma child_box_digit b ix iy iz :
+  (ix = 0 \/ ix = 1) -> (iy = 0 \/ iy = 1) -> (iz = 0 \/ iz = 1) ->
+  child_box b (4 * ix + 2 * iy + iz) = sub_box b ix iy iz.
+Proof. intros [-> | ->] [-> | ->] [-> | ->]; reflexivity. Qed.
+
+Lemma digit_bits d : 0 <= d < 8 ->
+  exists ix iy iz, (ix = 0 \/ ix = 1) /\ (iy = 0 \/ iy = 1) /\ (iz = 0 \/ iz = 1) /\ d = 4 * ix + 2 * iy + iz.
+Proof.
+  intros H. assert (C : d = 0 \/ d = 1 \/ d = 2 \/ d = 3 \/ d = 4 \/ d = 5 \/ d = 6 \/ d = 7) by lia.
+  destruct C as [->|[->|[->|[->|[->|[->|[->| ->]]]]]]].
+  - exists 0, 0, 0; lia. - exists 0, 0, 1; lia. - exists 0, 1, 0; lia. - exists 0, 1, 1; lia.
+  - exists 1, 0, 0; lia. - exists 1, 0, 1; lia. - exists 1, 1, 0; lia. - exists 1, 1, 1; lia.
+Qed.
+
+Lemma okbox_child n b d : 0 <= d < 8 -> okbox (S n) b -> okbox n (child_box b d).
+Proof.
+  intros Hd H. destruct (digit_bits d Hd) as [ix [iy [iz [Hx [Hy [Hz ->]]]]]].
+  rewrite child_box_digit by assumption. apply okbox_sub. exact H.
+Qed.
+
+(* a position of the box lies in exactly the child box that the descent selects *)
+Lemma inbox_sub_char p b ix iy iz :
+  okbox 1 b -> (ix = 0 \/ ix = 1) -> (iy = 0 \/ iy = 1) -> (iz = 0 \/ iz = 1) ->
+  (inbox p (sub_box b ix iy iz) <->
+   inbox p b /\ child_idx (vx p) (bax b) (bsx b) = ix /\ child_idx (vy p) (bay b) (bsy b) = iy
+             /\ child_idx (vz p) (baz b) (bsz b) = iz).
+Proof.
+  intros [A [B C]] Hx Hy Hz.
+  pose proof (okside_pos _ _ A). pose proof (okside_pos _ _ B). pose proof (okside_pos _ _ C).
+  apply okside_half in A, B, C. destruct A as [_ A], B as [_ B], C as [_ C].
+  unfold inbox, sub_box; cbn [bax bay baz bsx bsy bsz].
+  rewrite (child_idx_char (vx p) (bax b) (bsx b) ix) by assumption.
+  rewrite (child_idx_char (vy p) (bay b) (bsy b) iy) by assumption.
+  rewrite (child_idx_char (vz p) (baz b) (bsz b) iz) by assumption.
+  tauto.
+Qed.
+
+Lemma inbox_child_in p b d : okbox 1 b -> 0 <= d < 8 -> inbox p (child_box b d) -> inbox p b.
+Proof.
+  intros Hb Hd H. destruct (digit_bits d Hd) as [ix [iy [iz [Hx [Hy [Hz ->]]]]]].
+  rewrite child_box_digit in H by assumption. apply inbox_sub_char in H; tauto.
+Qed.
+
+Lemma inbox_child_unique p b d e :
+  okbox 1 b -> 0 <= d < 8 -> 0 <= e < 8 -> inbox p (child_box b d) -> inbox p (child_box b e) -> d = e.
+Proof.
+  intros Hb Hd He H1 H2.
+  destruct (digit_bits d Hd) as [ix [iy [iz [Hx [Hy [Hz ->]]]]]].
+  destruct (digit_bits e He) as [jx [jy [jz [Jx [Jy [Jz ->]]]]]].
+  rewrite child_box_digit in H1, H2 by assumption.
+  apply inbox_sub_char in H1, H2; try assumption. lia.
+Qed.
+
+Lemma box_of_path_cons b d q : box_of_path b (d :: q) = box_of_path (child_box b d) q.
+Proof. reflexivity. Qed.
+
+Lemma inbox_path_in p q : digits q -> forall b, okbox (length q) b -> inbox p (box_of_path b q) -> inbox p b.
+Proof.
+  induction 1 as [|d q Hd Hq IH]; intros b Hb H; [exact H|].
+  rewrite box_of_path_cons in H. cbn [length] in Hb.
+  apply (inbox_child_in p b d); [eapply okbox_le; [|exact Hb]; lia|exact Hd|].
+  apply IH; [apply okbox_child; assumption|exact H].
+Qed.
+
+(* ------------------------------------------------------------------------- *)
+(* membership in the leaves of a node                                         *)
+
+Lemma in_leaves_node q c0 c1 c2 c3 c4 c5 c6 c7 :
+  In q (leaves (Node c0 c1 c2 c3 c4 c5 c6 c7)) <->
+  exists d q', q = d :: q' /\ 0 <= d < 8 /\ In q' (leaves (pick d c0 c1 c2 c3 c4 c5 c6 c7)).
+Proof.
+  cbn [leaves]. rewrite !in_app_iff, !in_map_iff. split.
+  - intros H.
+    repeat (destruct H as [H|H]; [destruct H as [q' [<- H]]; eexists; exists q'; split; [reflexivity|]; split; [lia|exact H]|]).
+    destruct H as [q' [<- H]]; eexists; exists q'; split; [reflexivity|]; split; [lia|exact H].
+  - intros [d [q' [-> [Hd H]]]].
+    assert (C : d = 0 \/ d = 1 \/ d = 2 \/ d = 3 \/ d = 4 \/ d = 5 \/ d = 6 \/ d = 7) by lia.
+    destruct C as [->|[->|[->|[->|[->|[->|[->| ->]]]]]]]; cbn [pick] in H.
+    + left. eauto.
+    + right; left. eauto.
+    + do 2 right; left. eauto.
+    + do 3 right; left. eauto.
+    + do 4 right; left. eauto.
+    + do 5 right; left. eauto.
+    + do 6 right; left. eauto.
+    + do 7 right. eauto.
+Qed.
+
+Lemma depth_pick d c0 c1 c2 c3 c4 c5 c6 c7 :
+  (S (depth (pick d c0 c1 c2 c3 c4 c5 c6 c7)) <= depth (Node c0 c1 c2 c3 c4 c5 c6 c7))%nat.
+Proof.
+  cbn [depth].
+  pose proof (max8_le (depth c0) (depth c1) (depth c2) (depth c3) (depth c4) (depth c5) (depth c6) (depth c7)) as M.
+  cbv zeta in M. unfold pick.
+  repeat match goal with |- context [match ?x with _ => _ end] => destruct x end; lia.
+Qed.
+
+(* ------------------------------------------------------------------------- *)
+(* get_key(position): the key of a single cell whose box contains the position *)
+
+Theorem get_key_spec t : forall level p b n,
+  0 <= level -> (depth t <= n)%nat -> okbox n b -> inbox p b ->
+  exists q, In q (leaves t) /\ get_key t level p b = P8 level * code q /\ inbox p (box_of_path b q).
+Proof.
+  induction t as [|c0 IH0 c1 IH1 c2 IH2 c3 IH3 c4 IH4 c5 IH5 c6 IH6 c7 IH7];
+    intros level p b n Hl Hn Hb Hp.
+  - exists []. cbn [leaves get_key code box_of_path fold_left]. rewrite shl_P8 by lia.
+    split; [left; reflexivity|]. split; [lia|exact Hp].
+  - destruct n as [|n]; [cbn [depth] in Hn; lia|].
+    assert (Hb1 : okbox 1 b) by (eapply okbox_le; [|exact Hb]; lia).
+    pose proof Hb1 as Hb1'. pose proof Hp as Hp'.
+    destruct Hb1 as [A [B C]].
+    pose proof (okside_pos _ _ A). pose proof (okside_pos _ _ B). pose proof (okside_pos _ _ C).
+    pose proof (proj2 (okside_half _ _ A)). pose proof (proj2 (okside_half _ _ B)). pose proof (proj2 (okside_half _ _ C)).
+    destruct Hp as [Px [Py Pz]].
+    pose proof (child_idx_range _ _ _ H H2 Px) as Rx.
+    pose proof (child_idx_range _ _ _ H0 H3 Py) as Ry.
+    pose proof (child_idx_range _ _ _ H1 H4 Pz) as Rz.
+    cbn [get_key].
+    set (ix := child_idx (vx p) (bax b) (bsx b)) in *.
+    set (iy := child_idx (vy p) (bay b) (bsy b)) in *.
+    set (iz := child_idx (vz p) (baz b) (bsz b)) in *.
+    set (cell := 4 * ix + 2 * iy + iz).
+    assert (Hc : 0 <= cell < 8) by (unfold cell; lia).
+    assert (Hsub : inbox p (sub_box b ix iy iz)).
+    { apply inbox_sub_char; [exact Hb1'|exact Rx|exact Ry|exact Rz|].
+      split; [exact Hp'|]. repeat split; reflexivity. }
+    pose proof (depth_pick cell c0 c1 c2 c3 c4 c5 c6 c7) as Hdp.
+    assert (IH : exists q, In q (leaves (pick cell c0 c1 c2 c3 c4 c5 c6 c7)) /\
+              get_key (pick cell c0 c1 c2 c3 c4 c5 c6 c7) (level + 1) p (sub_box b ix iy iz) = P8 (level + 1) * code q /\
+              inbox p (box_of_path (sub_box b ix iy iz) q)).
+    { assert (Hn' : (depth (pick cell c0 c1 c2 c3 c4 c5 c6 c7) <= n)%nat) by lia.
+      assert (Hb' : okbox n (sub_box b ix iy iz)) by (apply okbox_sub; exact Hb).
+      unfold pick in *.
+      repeat match goal with |- context [match ?x with _ => _ end] => destruct x end; eauto with zarith.
+      all: match goal with IHc : forall level p b n, _ -> (depth ?c <= n)%nat -> _ |- context [leaves ?c] =>
+             apply (IHc (level + 1) p _ n); try assumption; lia end. }
+    destruct IH as [q [Hq [Ek Hin]]].
+    exists (cell :: q). split; [apply in_leaves_node; exists cell, q; auto|]. split.
+    + rewrite Ek, shl_P8 by lia. cbn [code]. rewrite P8_succ by lia. lia.
+    + rewrite box_of_path_cons. unfold cell. rewrite child_box_digit by assumption. exact Hin.
+Qed.
+
+(* no position lies in the boxes of two different single cells *)
+Theorem leaf_boxes_disjoint t : forall p b n q1 q2,
+  (depth t <= n)%nat -> okbox n b -> In q1 (leaves t) -> In q2 (leaves t) ->
+  inbox p (box_of_path b q1) -> inbox p (box_of_path b q2) -> q1 = q2.
+Proof.
+  induction t as [|c0 IH0 c1 IH1 c2 IH2 c3 IH3 c4 IH4 c5 IH5 c6 IH6 c7 IH7];
+    intros p b n q1 q2 Hn Hb H1 H2 B1 B2.
+  - cbn in H1, H2. destruct H1 as [<-|[]], H2 as [<-|[]]. reflexivity.
+  - destruct n as [|n]; [cbn [depth] in Hn; lia|].
+    apply in_leaves_node in H1, H2.
+    destruct H1 as [d1 [r1 [-> [Hd1 H1]]]], H2 as [d2 [r2 [-> [Hd2 H2]]]].
+    rewrite box_of_path_cons in B1, B2.
+    assert (Hb1 : okbox 1 b) by (eapply okbox_le; [|exact Hb]; lia).
+    pose proof (depth_pick d1 c0 c1 c2 c3 c4 c5 c6 c7) as Hdp1.
+    pose proof (depth_pick d2 c0 c1 c2 c3 c4 c5 c6 c7) as Hdp2.
+    assert (L1 : (length r1 <= n)%nat).
+    { pose proof (proj1 (Forall_forall _ _) (leaves_length _) _ H1) as L. cbv beta in L. lia. }
+    assert (L2 : (length r2 <= n)%nat).
+    { pose proof (proj1 (Forall_forall _ _) (leaves_length _) _ H2) as L. cbv beta in L. lia. }
+    assert (I1 : inbox p (child_box b d1)).
+    { apply (inbox_path_in p r1); [eapply in_leaves_digits; eauto| |exact B1].
+      eapply okbox_le; [|apply okbox_child; [exact Hd1|exact Hb]]. exact L1. }
+    assert (I2 : inbox p (child_box b d2)).
+    { apply (inbox_path_in p r2); [eapply in_leaves_digits; eauto| |exact B2].
+      eapply okbox_le; [|apply okbox_child; [exact Hd2|exact Hb]]. exact L2. }
+    assert (d1 = d2) by (eapply inbox_child_unique; eauto). subst d2. f_equal.
+    assert (Hb' : okbox n (child_box b d1)) by (apply okbox_child; assumption).
+    assert (Hn' : (depth (pick d1 c0 c1 c2 c3 c4 c5 c6 c7) <= n)%nat) by lia.
+    unfold pick in *.
+    repeat match goal with H : context [match ?x with _ => _ end] |- _ => destruct x end;
+    match goal with IHc : forall p b n q1 q2, (depth ?c <= n)%nat -> _, Hq : In r1 (leaves ?c) |- _ =>
+      eapply (IHc p _ n); eauto end.
+Qed.
+
+(* ------------------------------------------------------------------------- *)
+(* operator[]: the key of a single cell leads to that cell, its box and its level *)
+
+Lemma code_cons_bits d q : 0 <= d < 8 -> digits q ->
+  (d + 8 * code q =? 1) = false /\ Z.land (d + 8 * code q) 7 = d /\ Z.shiftr (d + 8 * code q) 3 = code q.
+Proof.
+  intros Hd Hq. pose proof (code_pos q Hq). repeat split.
+  - apply Z.eqb_neq. lia.
+  - rewrite land7. symmetry. apply Z.mod_unique with (q := code q); [left; lia|lia].
+  - rewrite shr3. symmetry. apply Z.div_unique with (r := d); [left; lia|lia].
+Qed.
+
+Theorem cell_of_key_spec t : forall q b level, In q (leaves t) ->
+  cell_of_key t (code q) b level = Some (Leaf, box_of_path b q, level + Z.of_nat (length q)).
+Proof.
+  induction t as [|c0 IH0 c1 IH1 c2 IH2 c3 IH3 c4 IH4 c5 IH5 c6 IH6 c7 IH7]; intros q b level Hq.
+  - cbn in Hq. destruct Hq as [<-|[]]. cbn. rewrite Z.add_0_r. reflexivity.
+  - pose proof (in_leaves_digits _ _ Hq) as Dq.
+    apply in_leaves_node in Hq. destruct Hq as [d [r [-> [Hd Hr]]]].
+    inversion Dq as [|? ? _ Dr]; subst.
+    destruct (code_cons_bits d r Hd Dr) as [E1 [E2 E3]].
+    cbn [cell_of_key code]. rewrite E1, E2, E3. rewrite box_of_path_cons.
+    cbn [length]. rewrite Nat2Z.inj_succ.
+    replace (level + Z.succ (Z.of_nat (length r))) with ((level + 1) + Z.of_nat (length r)) by lia.
+    unfold pick in *.
+    repeat match goal with H : context [match ?x with _ => _ end] |- _ => destruct x end; eauto.
+Qed.
+
+(* ------------------------------------------------------------------------- *)
+(* volumes                                                                    *)
+
+Fixpoint zsum (l : list Z) : Z := match l with [] => 0 | x :: r => x + zsum r end.
+
+Lemma zsum_app a b : zsum (a ++ b) = zsum a + zsum b.
+Proof. induction a; cbn [app zsum]; lia. Qed.
+
+Lemma volume_children b : okbox 1 b ->
+  volume (child_box b 0) + volume (child_box b 1) + volume (child_box b 2) + volume (child_box b 3) +
+  volume (child_box b 4) + volume (child_box b 5) + volume (child_box b 6) + volume (child_box b 7) = volume b.
+Proof.
+  intros [A [B C]]. apply okside_half in A, B, C. destruct A as [_ A], B as [_ B], C as [_ C].
+  unfold volume, child_box, sub_box; cbn [bsx bsy bsz].
+  set (hx := bsx b / 2) in *. set (hy := bsy b / 2) in *. set (hz := bsz b / 2) in *.
+  rewrite A, B, C. ring.
+Qed.
+
+Theorem volume_sum t : forall b n, (depth t <= n)%nat -> okbox n b ->
+  zsum (map (fun q => volume (box_of_path b q)) (leaves t)) = volume b.
+Proof.
+  induction t as [|c0 IH0 c1 IH1 c2 IH2 c3 IH3 c4 IH4 c5 IH5 c6 IH6 c7 IH7]; intros b n Hn Hb.
+  - cbn. lia.
+  - destruct n as [|n]; [cbn [depth] in Hn; lia|].
+    cbn [leaves]. rewrite !map_app, !zsum_app, !map_map.
+    assert (Hb1 : okbox 1 b) by (eapply okbox_le; [|exact Hb]; lia).
+    rewrite <- (volume_children b Hb1).
+    pose proof (max8_le (depth c0) (depth c1) (depth c2) (depth c3) (depth c4) (depth c5) (depth c6) (depth c7)) as M.
+    cbv zeta in M. cbn [depth] in Hn.
+    assert (E : forall d c, 0 <= d < 8 -> (depth c <= n)%nat ->
+                (forall b n, (depth c <= n)%nat -> okbox n b -> zsum (map (fun q => volume (box_of_path b q)) (leaves c)) = volume b) ->
+                zsum (map (fun q => volume (box_of_path b (d :: q))) (leaves c)) = volume (child_box b d)).
+    { intros d c Hd Hc IH. apply (IH (child_box b d) n Hc). apply okbox_child; assumption. }
+    rewrite (E 0 c0), (E 1 c1), (E 2 c2), (E 3 c3), (E 4 c4), (E 5 c5), (E 6 c6), (E 7 c7) by (assumption || lia).
+    lia.
+Qed.
+
+(* ------------------------------------------------------------------------- *)
+(* create_all_cells and refine                                                *)
+
+Lemma depth_uniform n : depth (uniform n) = n.
+Proof. induction n as [|n IH]; [reflexivity|]. cbn [uniform depth]. rewrite IH. lia. Qed.
+
+Lemma leaves_uniform_length n : Forall (fun q => length q = n) (leaves (uniform n)).
+Proof.
+  induction n as [|n IH]; [repeat constructor|].
+  cbn [uniform leaves]. rewrite !Forall_app.
+  repeat split; apply Forall_map_cons; intros p Hp; cbn [length]; f_equal;
+    exact (proj1 (Forall_forall _ _) IH _ Hp).
+Qed.
+
+Lemma pick_set_same d n c0 c1 c2 c3 c4 c5 c6 c7 : 0 <= d < 8 ->
+  exists e0 e1 e2 e3 e4 e5 e6 e7, set_child d n c0 c1 c2 c3 c4 c5 c6 c7 = Node e0 e1 e2 e3 e4 e5 e6 e7 /\
+    (forall e, 0 <= e < 8 -> pick e e0 e1 e2 e3 e4 e5 e6 e7 = if e =? d then n else pick e c0 c1 c2 c3 c4 c5 c6 c7).
+Proof.
+  intros Hd.
+  assert (C : d = 0 \/ d = 1 \/ d = 2 \/ d = 3 \/ d = 4 \/ d = 5 \/ d = 6 \/ d = 7) by lia.
+  destruct C as [->|[->|[->|[->|[->|[->|[->| ->]]]]]]]; cbn [set_child];
+    do 8 eexists; (split; [reflexivity|]); intros e He;
+    assert (C : e = 0 \/ e = 1 \/ e = 2 \/ e = 3 \/ e = 4 \/ e = 5 \/ e = 6 \/ e = 7) by lia;
+    destruct C as [->|[->|[->|[->|[->|[->|[->| ->]]]]]]]; reflexivity.
+Qed.
+
+(* refining the single cell with key k replaces exactly that cell by its eight children; the returned
+   key is that of the first child *)
+Theorem refine_spec t : forall q, In q (leaves t) ->
+  exists t', refine t (code q) = Some (t', code (q ++ [0])) /\
+    forall r, In r (leaves t') <-> (In r (leaves t) /\ r <> q) \/ (exists d, 0 <= d < 8 /\ r = q ++ [d]).
+Proof.
+  induction t as [|c0 IH0 c1 IH1 c2 IH2 c3 IH3 c4 IH4 c5 IH5 c6 IH6 c7 IH7]; intros q Hq.
+  - cbn in Hq. destruct Hq as [<-|[]].
+    exists (Node Leaf Leaf Leaf Leaf Leaf Leaf Leaf Leaf). split; [reflexivity|].
+    intros r. rewrite in_leaves_node. split.
+    + intros [d [r' [-> [Hd Hr]]]]. right. exists d. split; [exact Hd|].
+      unfold pick in Hr.
+      repeat match goal with H : context [match ?x with _ => _ end] |- _ => destruct x end;
+        cbn in Hr; destruct Hr as [<-|[]]; reflexivity.
+    + intros [[H1 H2]|[d [Hd ->]]].
+      * cbn in H1. destruct H1 as [<-|[]]. congruence.
+      * exists d, []. split; [reflexivity|]. split; [exact Hd|].
+        unfold pick. repeat match goal with |- context [match ?x with _ => _ end] => destruct x end; left; reflexivity.
+  - pose proof (in_leaves_digits _ _ Hq) as Dq.
+    apply in_leaves_node in Hq. destruct Hq as [d [q' [-> [Hd Hq']]]].
+    inversion Dq as [|? ? _ Dq']; subst.
+    destruct (code_cons_bits d q' Hd Dq') as [E1 [E2 E3]].
+    assert (IH : exists t', refine (pick d c0 c1 c2 c3 c4 c5 c6 c7) (code q') = Some (t', code (q' ++ [0])) /\
+              forall r, In r (leaves t') <-> (In r (leaves (pick d c0 c1 c2 c3 c4 c5 c6 c7)) /\ r <> q') \/
+                                            (exists e, 0 <= e < 8 /\ r = q' ++ [e])).
+    { unfold pick in *.
+      repeat match goal with H : context [match ?x with _ => _ end] |- _ => destruct x end; eauto. }
+    destruct IH as [t' [Er Hl]].
+    destruct (pick_set_same d t' c0 c1 c2 c3 c4 c5 c6 c7 Hd) as [e0 [e1 [e2 [e3 [e4 [e5 [e6 [e7 [Es Hp]]]]]]]]].
+    exists (Node e0 e1 e2 e3 e4 e5 e6 e7). split.
+    + cbn [refine code]. rewrite E1, E2, E3, Er, Es. do 2 f_equal.
+      cbn [app code]. rewrite shl3. lia.
+    + intros r. rewrite !in_leaves_node. split.
+      * intros [e [r' [-> [He Hr]]]]. rewrite (Hp e He) in Hr.
+        destruct (Z.eqb_spec e d) as [->|Hne].
+        -- apply Hl in Hr. destruct Hr as [[H1 H2]|[f [Hf ->]]].
+           ++ left. split; [exists d, r'; auto|congruence].
+           ++ right. exists f. split; [exact Hf|reflexivity].
+        -- left. split; [exists e, r'; auto|congruence].
+      * intros [[[e [r' [-> [He Hr]]]] Hne]|[f [Hf ->]]].
+        -- exists e, r'. split; [reflexivity|]. split; [exact He|]. rewrite (Hp e He).
+           destruct (Z.eqb_spec e d) as [->|Hd']; [|exact Hr].
+           apply Hl. left. split; [exact Hr|congruence].
+        -- exists d, (q' ++ [f]). split; [reflexivity|]. split; [exact Hd|]. rewrite (Hp d Hd), Z.eqb_refl.
+           apply Hl. right. exists f. auto.
+Qed.
+
+(* a key that is not the key of a single cell is rejected *)
+Theorem refine_some_is_leaf t : forall k t' k', refine t k = Some (t', k') -> exists q, In q (leaves t) /\ k = code q.
+Proof.
+  induction t as [|c0 IH0 c1 IH1 c2 IH2 c3 IH3 c4 IH4 c5 IH5 c6 IH6 c7 IH7]; intros k t' k' H.
+  - cbn [refine] in H. destruct (k =? 1) eqn:E; [|discriminate].
+    apply Z.eqb_eq in E. exists []. split; [left; reflexivity|exact E].
+  - cbn [refine] in H. destruct (k =? 1) eqn:E; [discriminate|].
+    destruct (refine (pick (Z.land k 7) c0 c1 c2 c3 c4 c5 c6 c7) (Z.shiftr k 3)) as [[c' nk]|] eqn:Er; [|discriminate].
+    assert (IH : exists q, In q (leaves (pick (Z.land k 7) c0 c1 c2 c3 c4 c5 c6 c7)) /\ Z.shiftr k 3 = code q).
+    { unfold pick in *.
+      repeat match goal with H : context [match ?x with _ => _ end] |- _ => destruct x end; eauto. }
+    destruct IH as [q [Hq Ek]].
+    assert (Hd : 0 <= Z.land k 7 < 8) by (rewrite land7; apply Z.mod_pos_bound; lia).
+    exists (Z.land k 7 :: q). split; [apply in_leaves_node; eauto|].
+    cbn [code]. rewrite <- Ek, land7, shr3. pose proof (Z.div_mod k 8 ltac:(lia)). lia.
+Qed.
+
+(* every tree is the result of a sequence of refinements of a single cell: quantifying over trees is
+   quantifying over refinement histories *)
+Fixpoint refine_seq (t : tree) (ks : list Z) : option tree :=
+  match ks with
+  | [] => Some t
+  | k :: r => match refine t k with Some (t', _) => refine_seq t' r | None => None end
+  end.
+
+Lemma refine_seq_app t a b :
+  refine_seq t (a ++ b) = match refine_seq t a with Some t' => refine_seq t' b | None => None end.
+Proof.
+  revert t. induction a as [|k a IH]; intros t; [reflexivity|].
+  cbn [app refine_seq]. destruct (refine t k) as [[t' ?]|]; [apply IH|reflexivity].
+Qed.
+
+Lemma key_cons_bits d k : 0 <= d < 8 -> 1 <= k ->
+  (d + 8 * k =? 1) = false /\ Z.land (d + 8 * k) 7 = d /\ Z.shiftr (d + 8 * k) 3 = k.
+Proof.
+  intros Hd Hk. repeat split.
+  - apply Z.eqb_neq. lia.
+  - rewrite land7. symmetry. apply Z.mod_unique with (q := k); [left; lia|lia].
+  - rewrite shr3. symmetry. apply Z.div_unique with (r := d); [left; lia|lia].
+Qed.
+
+Definition with_child (d : Z) (n : tree) (t : tree) : tree :=
+  match t with Leaf => Leaf | Node c0 c1 c2 c3 c4 c5 c6 c7 => set_child d n c0 c1 c2 c3 c4 c5 c6 c7 end.
+Definition child_of (d : Z) (t : tree) : tree :=
+  match t with Leaf => Leaf | Node c0 c1 c2 c3 c4 c5 c6 c7 => pick d c0 c1 c2 c3 c4 c5 c6 c7 end.
+Definition is_node (t : tree) : Prop := match t with Leaf => False | _ => True end.
+
+Ltac digit_cases d :=
+  let C := fresh "C" in
+  assert (C : d = 0 \/ d = 1 \/ d = 2 \/ d = 3 \/ d = 4 \/ d = 5 \/ d = 6 \/ d = 7) by lia;
+  destruct C as [->|[->|[->|[->|[->|[->|[->| ->]]]]]]].
+
+Lemma with_child_facts d n t : 0 <= d < 8 -> is_node t ->
+  is_node (with_child d n t) /\ child_of d (with_child d n t) = n /\
+  (forall m, with_child d m (with_child d n t) = with_child d m t) /\
+  (forall e, 0 <= e < 8 -> e <> d -> child_of e (with_child d n t) = child_of e t).
+Proof.
+  intros Hd Ht. destruct t as [|c0 c1 c2 c3 c4 c5 c6 c7]; [destruct Ht|].
+  digit_cases d; cbn [with_child set_child child_of pick is_node]; repeat split; auto;
+    intros e He Hne; digit_cases e; try reflexivity; congruence.
+Qed.
+
+Lemma refine_node_child d k t c' nk : 0 <= d < 8 -> 1 <= k -> is_node t ->
+  refine (child_of d t) k = Some (c', nk) ->
+  refine t (d + 8 * k) = Some (with_child d c' t, Z.shiftl nk 3 + d).
+Proof.
+  intros Hd Hk Ht H. destruct t as [|c0 c1 c2 c3 c4 c5 c6 c7]; [destruct Ht|].
+  destruct (key_cons_bits d k Hd Hk) as [E1 [E2 E3]].
+  cbn [child_of] in H. cbn [refine with_child]. rewrite E1, E2, E3, H. reflexivity.
+Qed.
+
+Lemma refine_seq_child d : 0 <= d < 8 -> forall ks t c',
+  is_node t -> refine_seq (child_of d t) ks = Some c' ->
+  refine_seq t (map (fun k => d + 8 * k) ks) = Some (with_child d c' t).
+Proof.
+  intros Hd. induction ks as [|k ks IH]; intros t c' Ht H.
+  - cbn [refine_seq map] in *. injection H as <-.
+    destruct t as [|c0 c1 c2 c3 c4 c5 c6 c7]; [destruct Ht|].
+    cbn [child_of with_child]. f_equal. digit_cases d; reflexivity.
+  - cbn [refine_seq map] in *.
+    destruct (refine (child_of d t) k) as [[c1 nk]|] eqn:Er; [|discriminate].
+    assert (Hk : 1 <= k).
+    { destruct (refine_some_is_leaf _ _ _ _ Er) as [q [Hq ->]]. apply code_pos. eapply in_leaves_digits; eauto. }
+    rewrite (refine_node_child d k t c1 nk Hd Hk Ht Er).
+    destruct (with_child_facts d c1 t Hd Ht) as [N1 [N2 [N3 _]]].
+    rewrite (IH (with_child d c1 t) c' N1); [rewrite N3; reflexivity|].
+    rewrite N2. exact H.
+Qed.
+
+Lemma refine_seq_node d ks c' c0 c1 c2 c3 c4 c5 c6 c7 : 0 <= d < 8 ->
+  refine_seq (pick d c0 c1 c2 c3 c4 c5 c6 c7) ks = Some c' ->
+  refine_seq (Node c0 c1 c2 c3 c4 c5 c6 c7) (map (fun k => d + 8 * k) ks) = Some (set_child d c' c0 c1 c2 c3 c4 c5 c6 c7).
+Proof. intros Hd H. exact (refine_seq_child d Hd ks (Node c0 c1 c2 c3 c4 c5 c6 c7) c' I H). Qed.
+
+Theorem every_tree_is_a_refinement_history t : exists ks, refine_seq Leaf ks = Some t.
+Proof.
+  induction t as [|c0 [k0 H0] c1 [k1 H1] c2 [k2 H2] c3 [k3 H3] c4 [k4 H4] c5 [k5 H5] c6 [k6 H6] c7 [k7 H7]].
+  - exists []. reflexivity.
+  - exists (1 :: map (fun k => 0 + 8 * k) k0 ++ map (fun k => 1 + 8 * k) k1 ++ map (fun k => 2 + 8 * k) k2 ++
+            map (fun k => 3 + 8 * k) k3 ++ map (fun k => 4 + 8 * k) k4 ++ map (fun k => 5 + 8 * k) k5 ++
+            map (fun k => 6 + 8 * k) k6 ++ map (fun k => 7 + 8 * k) k7).
+    cbn [refine_seq refine Z.eqb Pos.eqb].
+    rewrite refine_seq_app, (refine_seq_node 0 k0 c0 _ _ _ _ _ _ _ _ ltac:(lia) H0). cbn [set_child].
+    rewrite refine_seq_app, (refine_seq_node 1 k1 c1 _ _ _ _ _ _ _ _ ltac:(lia) H1). cbn [set_child].
+    rewrite refine_seq_app, (refine_seq_node 2 k2 c2 _ _ _ _ _ _ _ _ ltac:(lia) H2). cbn [set_child].
+    rewrite refine_seq_app, (refine_seq_node 3 k3 c3 _ _ _ _ _ _ _ _ ltac:(lia) H3). cbn [set_child].
+    rewrite refine_seq_app, (refine_seq_node 4 k4 c4 _ _ _ _ _ _ _ _ ltac:(lia) H4). cbn [set_child].
+    rewrite refine_seq_app, (refine_seq_node 5 k5 c5 _ _ _ _ _ _ _ _ ltac:(lia) H5). cbn [set_child].
+    rewrite refine_seq_app, (refine_seq_node 6 k6 c6 _ _ _ _ _ _ _ _ ltac:(lia) H6). cbn [set_child].
+    rewrite (refine_seq_node 7 k7 c7 _ _ _ _ _ _ _ _ ltac:(lia) H7). reflexivity.
+Qed.
+
+(* ------------------------------------------------------------------------- *)
+(* AMRGrid: block part of the key                                             *)
+
+Lemma block_key_val ix iy iz : block_key ix iy iz = ix * 2 ^ 20 + iy * 2 ^ 10 + iz.
+Proof. unfold block_key. rewrite !Z.shiftl_mul_pow2 by lia. reflexivity. Qed.
+
+Lemma full_key_val ix iy iz cell : full_key ix iy iz cell = (ix * 2 ^ 20 + iy * 2 ^ 10 + iz) * 2 ^ 32 + cell.
+Proof. unfold full_key. rewrite Z.shiftl_mul_pow2, block_key_val by lia. reflexivity. Qed.
+
+Lemma key_block_full ix iy iz cell :
+  0 <= ix < 1024 -> 0 <= iy < 1024 -> 0 <= iz < 1024 -> 0 <= cell < 2 ^ 32 ->
+  key_block (full_key ix iy iz cell) = (ix, iy, iz) /\ cell_key (full_key ix iy iz cell) = cell.
+Proof.
+  intros Hx Hy Hz Hc. unfold key_block, cell_key. rewrite full_key_val.
+  set (block := ix * 2 ^ 20 + iy * 2 ^ 10 + iz).
+  assert (E32 : Z.shiftr (block * 2 ^ 32 + cell) 32 = block).
+  { rewrite Z.shiftr_div_pow2 by lia. symmetry. apply Z.div_unique with (r := cell); [left; lia|lia]. }
+  rewrite E32. rewrite !Z.shiftr_land.
+  change (Z.shiftr 1072693248 20) with (Z.ones 10). change (Z.shiftr 1047552 10) with (Z.ones 10).
+  change 1023 with (Z.ones 10). change 4294967295 with (Z.ones 32).
+  rewrite !Z.land_ones, !Z.shiftr_div_pow2 by lia. change (2 ^ 10) with 1024 in *. change (2 ^ 20) with 1048576 in *.
+  subst block. repeat split.
+  - f_equal; [f_equal|].
+    + assert (Q : (ix * 1048576 + iy * 1024 + iz) / 1048576 = ix)
+        by (symmetry; apply Z.div_unique with (r := iy * 1024 + iz); [left; lia|lia]).
+      rewrite Q. apply Z.mod_small. lia.
+    + assert (Q : (ix * 1048576 + iy * 1024 + iz) / 1024 = ix * 1024 + iy)
+        by (symmetry; apply Z.div_unique with (r := iz); [left; lia|lia]).
+      rewrite Q. symmetry. apply Z.mod_unique with (q := ix); [left; lia|lia].
+    + symmetry. apply Z.mod_unique with (q := ix * 1024 + iy); [left; lia|lia].
+  - symmetry. apply Z.mod_unique with (q := ix * 1048576 + iy * 1024 + iz); [left; lia|lia].
+Qed.
+
+Lemma full_key_bound ix iy iz cell :
+  0 <= ix < 1024 -> 0 <= iy < 1024 -> 0 <= iz < 1024 -> 0 <= cell < 2 ^ 32 ->
+  0 <= full_key ix iy iz cell < 2 ^ 62.
+Proof.
+  intros. rewrite full_key_val. change (2 ^ 20) with 1048576. change (2 ^ 10) with 1024.
+  change (2 ^ 32) with 4294967296 in *. change (2 ^ 62) with 4611686018427387904. lia.
+Qed.
+
+(* (key & 0xffffffff00000000) + newcell *)
+Lemma high_part ix iy iz cell :
+  0 <= ix < 1024 -> 0 <= iy < 1024 -> 0 <= iz < 1024 -> 0 <= cell < 2 ^ 32 ->
+  Z.land (full_key ix iy iz cell) 18446744069414584320 = full_key ix iy iz 0.
+Proof.
+  intros Hx Hy Hz Hc. rewrite !full_key_val. set (block := ix * 2 ^ 20 + iy * 2 ^ 10 + iz).
+  assert (Hb : 0 <= block < 2 ^ 30).
+  { subst block. change (2 ^ 20) with 1048576. change (2 ^ 10) with 1024. change (2 ^ 30) with 1073741824. lia. }
+  rewrite Z.add_0_r.
+  change 18446744069414584320 with (Z.shiftl (Z.ones 32) 32).
+  apply Z.bits_inj'. intros n Hn.
+  rewrite Z.land_spec. destruct (Z_lt_ge_dec n 32) as [L|G].
+  - rewrite Z.shiftl_spec_low by lia. rewrite andb_false_r.
+    rewrite Z.mul_pow2_bits_low by lia. reflexivity.
+  - rewrite Z.shiftl_spec_high by lia. rewrite Z.testbit_ones_nonneg by lia.
+    replace n with (32 + (n - 32)) at 1 3 by lia.
+    rewrite Z.mul_pow2_bits_add by lia.
+    assert (T : Z.testbit (block * 2 ^ 32 + cell) (32 + (n - 32)) = Z.testbit block (n - 32)).
+    { replace (32 + (n - 32)) with ((n - 32) + 32) by lia. rewrite <- (Z.shiftr_spec _ 32) by lia. rewrite Z.shiftr_div_pow2 by lia.
+      f_equal. symmetry. apply Z.div_unique with (r := cell); [left; lia|lia]. }
+    rewrite T. destruct (n - 32 <? 32) eqn:E; [apply andb_true_r|].
+    apply Z.ltb_ge in E. rewrite andb_false_r. symmetry.
+    apply Z.bits_above_log2; [lia|].
+    destruct (Z.eq_dec block 0) as [->|Hnz]; [cbn; lia|].
+    assert (Z.log2 block < 30) by (apply Z.log2_lt_pow2; lia). lia.
+Qed.
+
+(* ------------------------------------------------------------------------- *)
+(* AMRGrid: enumeration over the blocks                                       *)
+
+Lemma flat_map_split {A B} (f : A -> list B) l l1 x l2 :
+  flat_map f l = l1 ++ x :: l2 ->
+  exists la a lb m1 m2, l = la ++ a :: lb /\ f a = m1 ++ x :: m2 /\ l1 = flat_map f la ++ m1 /\ l2 = m2 ++ flat_map f lb.
+Proof.
+  rewrite flat_map_concat_map. intros H. apply concat_split in H.
+  destruct H as [La [a [Lb [a1 [a2 [E1 [E2 [E3 E4]]]]]]]].
+  apply map_eq_app in E1. destruct E1 as [la [lb' [-> [<- E5]]]].
+  apply map_eq_cons in E5. destruct E5 as [a' [lb [-> [<- <-]]]].
+  exists la, a', lb, a1, a2. rewrite !flat_map_concat_map. auto.
+Qed.
+
+Lemma seq_split : forall len start sa x sb, seq start len = sa ++ x :: sb ->
+  (x = start + length sa /\ x < start + len /\ sb = seq (S x) (start + len - S x))%nat.
+Proof.
+  induction len as [|len IH]; intros start sa x sb H.
+  - destruct sa; discriminate.
+  - cbn [seq] in H. destruct sa as [|y sa]; cbn [app] in H.
+    + injection H as <- <-. cbn [length]. repeat split; try lia. f_equal. lia.
+    + injection H as <- H. apply IH in H. destruct H as [-> [H1 ->]]. cbn [length].
+      repeat split; try lia. f_equal; lia.
+Qed.
+
+Lemma zrange_split n la a lb : zrange n = la ++ a :: lb ->
+  0 <= a < n /\ ((lb = [] /\ a + 1 = n) \/ (exists lb', lb = (a + 1) :: lb' /\ a + 1 < n)).
+Proof.
+  unfold zrange. intros H. apply map_eq_app in H. destruct H as [sa [sb' [E1 [<- E2]]]].
+  apply map_eq_cons in E2. destruct E2 as [x [sb [-> [<- <-]]]].
+  apply seq_split in E1. destruct E1 as [Ex [Hlt ->]]. cbn [Nat.add] in *. subst x.
+  split; [lia|].
+  destruct (Z.to_nat n - S (length sa))%nat as [|k] eqn:Ek.
+  - left. split; [reflexivity|lia].
+  - right. cbn [seq map]. eexists. split; [f_equal; lia|lia].
+Qed.
+
+Lemma zrange_first n : 1 <= n -> exists r, zrange n = 0 :: r.
+Proof.
+  intros H. unfold zrange. destruct (Z.to_nat n) as [|k] eqn:E; [lia|]. cbn. eexists. reflexivity.
+Qed.
+
+Lemma in_zrange n a : In a (zrange n) <-> 0 <= a < n.
+Proof.
+  unfold zrange. rewrite in_map_iff. split.
+  - intros [k [<- Hk]]. apply in_seq in Hk. lia.
+  - intros H. exists (Z.to_nat a). split; [lia|]. apply in_seq. lia.
+Qed.
+
+Definition cellid := (Z * Z * Z * path)%type.
+Definition zl (g : grid) (ix iy iz : Z) : list cellid := map (fun p => (ix, iy, iz, p)) (leaves (blk g ix iy iz)).
+Definition yl (g : grid) (ix iy : Z) : list cellid := flat_map (zl g ix iy) (zrange (gnz g)).
+Definition xl (g : grid) (ix : Z) : list cellid := flat_map (yl g ix) (zrange (gny g)).
+
+Lemma gleaves_xl g : gleaves g = flat_map (xl g) (zrange (gnx g)).
+Proof. reflexivity. Qed.
+
+Definition wfgrid (g : grid) : Prop :=
+  1 <= gnx g <= 1024 /\ 1 <= gny g <= 1024 /\ 1 <= gnz g <= 1024 /\
+  forall ix iy iz, 0 <= ix < gnx g -> 0 <= iy < gny g -> 0 <= iz < gnz g -> (depth (blk g ix iy iz) <= 10)%nat.
+
+Lemma zl_first g ix iy iz : exists r, zl g ix iy iz = (ix, iy, iz, first_leaf (blk g ix iy iz)) :: r.
+Proof. unfold zl. destruct (leaves_first (blk g ix iy iz)) as [r ->]. cbn. eexists; reflexivity. Qed.
+
+Lemma yl_first g ix iy : 1 <= gnz g -> exists r, yl g ix iy = (ix, iy, 0, first_leaf (blk g ix iy 0)) :: r.
+Proof.
+  intros H. unfold yl. destruct (zrange_first _ H) as [r ->]. cbn [flat_map].
+  destruct (zl_first g ix iy 0) as [r' ->]. cbn. eexists; reflexivity.
+Qed.
+
+Lemma xl_first g ix : 1 <= gny g -> 1 <= gnz g -> exists r, xl g ix = (ix, 0, 0, first_leaf (blk g ix 0 0)) :: r.
+Proof.
+  intros H1 H2. unfold xl. destruct (zrange_first _ H1) as [r ->]. cbn [flat_map].
+  destruct (yl_first g ix 0 H2) as [r' ->]. cbn. eexists; reflexivity.
+Qed.
+
+Lemma in_gleaves g ix iy iz p :
+  In (ix, iy, iz, p) (gleaves g) <->
+  0 <= ix < gnx g /\ 0 <= iy < gny g /\ 0 <= iz < gnz g /\ In p (leaves (blk g ix iy iz)).
+Proof.
+  unfold gleaves. rewrite in_flat_map. split.
+  - intros [jx [Hx H]]. apply in_flat_map in H. destruct H as [jy [Hy H]].
+    apply in_flat_map in H. destruct H as [jz [Hz H]]. apply in_map_iff in H.
+    destruct H as [q [E Hq]]. injection E as -> -> -> ->.
+    apply in_zrange in Hx, Hy, Hz. auto.
+  - intros [Hx [Hy [Hz Hp]]]. exists ix. split; [apply in_zrange; exact Hx|].
+    apply in_flat_map. exists iy. split; [apply in_zrange; exact Hy|].
+    apply in_flat_map. exists iz. split; [apply in_zrange; exact Hz|].
+    apply in_map_iff. exists p. auto.
+Qed.
+
+Lemma first_key0 t : first_key t 0 = code (first_leaf t).
+Proof. rewrite first_key_spec by lia. rewrite P8_0. lia. Qed.
+
+Lemma gcode_bound g c : wfgrid g -> In c (gleaves g) -> 0 <= gcode c < 2 ^ 62.
+Proof.
+  intros [Wx [Wy [Wz Wd]]] H. destruct c as [[[ix iy] iz] p]. apply in_gleaves in H.
+  destruct H as [Hx [Hy [Hz Hp]]]. unfold gcode.
+  pose proof (key_width _ _ Hp (Wd _ _ _ Hx Hy Hz)) as K.
+  change (2 ^ 31) with 2147483648 in K. apply full_key_bound; try lia; change (2 ^ 32) with 4294967296; lia.
+Qed.
+
+Theorem grid_next_key_spec g : wfgrid g ->
+  forall l1 c l2, gleaves g = l1 ++ c :: l2 ->
+  grid_next_key g (gcode c) = match l2 with [] => MAXKEY64 | c' :: _ => gcode c' end.
+Proof.
+  intros W l1 c l2 H. pose proof W as [Wx [Wy [Wz Wd]]].
+  assert (Hin : In c (gleaves g)) by (rewrite H; apply in_elt).
+  rewrite gleaves_xl in H.
+  apply flat_map_split in H. destruct H as [lax [ix [lbx [m1x [m2x [Ex [Fx [_ ->]]]]]]]].
+  unfold xl at 1 in Fx.
+  apply flat_map_split in Fx. destruct Fx as [lay [iy [lby [m1y [m2y [Ey [Fy [_ ->]]]]]]]].
+  unfold yl at 1 in Fy.
+  apply flat_map_split in Fy. destruct Fy as [laz [iz [lbz [m1z [m2z [Ez [Fz [_ ->]]]]]]]].
+  unfold zl at 1 in Fz.
+  apply map_eq_app in Fz. destruct Fz as [n1 [n2' [El [_ Fz]]]].
+  apply map_eq_cons in Fz. destruct Fz as [p [n2 [-> [<- <-]]]].
+  apply zrange_split in Ex, Ey, Ez.
+  destruct Ex as [Hx Cx], Ey as [Hy Cy], Ez as [Hz Cz].
+  apply in_gleaves in Hin. destruct Hin as [_ [_ [_ Hp]]].
+  pose proof (key_width _ _ Hp (Wd _ _ _ Hx Hy Hz)) as K.
+  change (2 ^ 31) with 2147483648 in K.
+  unfold grid_next_key, gcode.
+  destruct (key_block_full ix iy iz (code p)) as [KB CK]; try lia.
+  rewrite KB, CK.
+  pose proof (next_key_spec (blk g ix iy iz) 0 0 ltac:(lia) ltac:(rewrite P8_0; lia) n1 p n2 El) as NK.
+  rewrite P8_0 in NK. replace (0 + 1 * code p) with (code p) in NK by lia. rewrite NK.
+  destruct n2 as [|p' n2].
+  - rewrite Z.eqb_refl. cbn [map app].
+    destruct Cz as [[-> Cz]|[lbz' [-> Cz]]].
+    + assert (Ez : (iz + 1 =? gnz g) = true) by (apply Z.eqb_eq; lia). rewrite Ez. cbn [flat_map app].
+      destruct Cy as [[-> Cy]|[lby' [-> Cy]]].
+      * assert (Ey : (iy + 1 =? gny g) = true) by (apply Z.eqb_eq; lia). rewrite Ey. cbn [flat_map app].
+        destruct Cx as [[-> Cx]|[lbx' [-> Cx]]].
+        -- assert (Ex : (ix + 1 =? gnx g) = true) by (apply Z.eqb_eq; lia). rewrite Ex. reflexivity.
+        -- assert (Ex : (ix + 1 =? gnx g) = false) by (apply Z.eqb_neq; lia). rewrite Ex.
+           cbn [flat_map]. destruct (xl_first g (ix + 1)) as [r ->]; try lia. cbn [app].
+           rewrite first_key0. reflexivity.
+      * assert (Ey : (iy + 1 =? gny g) = false) by (apply Z.eqb_neq; lia). rewrite Ey.
+        cbn [flat_map]. destruct (yl_first g ix (iy + 1)) as [r ->]; try lia. cbn [app].
+        rewrite first_key0. reflexivity.
+    + assert (Ez : (iz + 1 =? gnz g) = false) by (apply Z.eqb_neq; lia). rewrite Ez.
+      cbn [flat_map]. destruct (zl_first g ix iy (iz + 1)) as [r ->]. cbn [app].
+      rewrite first_key0. reflexivity.
+  - assert (Hp' : In p' (leaves (blk g ix iy iz))) by (rewrite El; apply in_or_app; right; right; left; reflexivity).
+    assert (Hne : 0 + 1 * code p' <> MAXKEY32).
+    { replace (0 + 1 * code p') with (code p') by lia. apply code_not_sentinel. eapply in_leaves_digits; eauto. }
+    apply Z.eqb_neq in Hne. rewrite Hne. cbn [map app]. f_equal. lia.
+Qed.
+
+Theorem grid_enumerate_leaves g fuel : wfgrid g ->
+  (length (gleaves g) < fuel)%nat -> grid_enumerate fuel g = map gcode (gleaves g).
+Proof.
+  intros W Hf. pose proof W as [Wx [Wy [Wz Wd]]]. unfold grid_enumerate, grid_first_key.
+  rewrite first_key0.
+  assert (E : exists r, gleaves g = (0, 0, 0, first_leaf (blk g 0 0 0)) :: r).
+  { rewrite gleaves_xl. destruct (zrange_first (gnx g)) as [r ->]; [lia|]. cbn [flat_map].
+    destruct (xl_first g 0) as [r' ->]; try lia. cbn [app]. eexists; reflexivity. }
+  destruct E as [r E].
+  change (code (first_leaf (blk g 0 0 0))) with (full_key 0 0 0 (code (first_leaf (blk g 0 0 0)))) at 1.
+  change (full_key 0 0 0 (code (first_leaf (blk g 0 0 0)))) with (gcode (0, 0, 0, first_leaf (blk g 0 0 0))).
+  rewrite E.
+  apply (iterate_follows gcode (grid_next_key g) MAXKEY64 (gleaves g)) with (l1 := []).
+  - intros x Hx. pose proof (gcode_bound g x W Hx) as B. unfold MAXKEY64.
+    change (2 ^ 62) with 4611686018427387904 in B. lia.
+  - intros l1 x l2 El. apply (grid_next_key_spec g W l1 x l2 El).
+  - exact E.
+  - rewrite E in Hf. exact Hf.
+Qed.
+
+(* ------------------------------------------------------------------------- *)
+(* AMRGrid: keys are pairwise different                                       *)
+
+Lemma NoDup_flat_map {A B} (f : A -> list B) (l : list A) :
+  NoDup l -> (forall a, In a l -> NoDup (f a)) ->
+  (forall a b x, In a l -> In b l -> In x (f a) -> In x (f b) -> a = b) ->
+  NoDup (flat_map f l).
+Proof.
+  induction l as [|a l IH]; intros Hl Hf Hd; [constructor|].
+  cbn [flat_map]. inversion Hl as [|? ? Hn Hl']; subst.
+  apply NoDup_app_intro.
+  - apply Hf. left; reflexivity.
+  - apply IH; auto.
+    + intros b Hb. apply Hf. right; exact Hb.
+    + intros b c x Hb Hc. apply Hd; right; assumption.
+  - intros x Hx1 Hx2. apply in_flat_map in Hx2. destruct Hx2 as [b [Hb Hx2]].
+    assert (a = b) by (apply (Hd a b x); [left; reflexivity|right; exact Hb|exact Hx1|exact Hx2]).
+    subst b. contradiction.
+Qed.
+
+Lemma zrange_NoDup n : NoDup (zrange n).
+Proof.
+  unfold zrange. apply Injective_map_NoDup; [|apply seq_NoDup]. intros a b. apply Nat2Z.inj.
+Qed.
+
+Lemma gleaves_NoDup g : NoDup (gleaves g).
+Proof.
+  rewrite gleaves_xl. apply NoDup_flat_map; [apply zrange_NoDup| |].
+  - intros ix _. unfold xl. apply NoDup_flat_map; [apply zrange_NoDup| |].
+    + intros iy _. unfold yl. apply NoDup_flat_map; [apply zrange_NoDup| |].
+      * intros iz _. unfold zl. apply Injective_map_NoDup; [|apply leaves_NoDup].
+        intros a b E. injection E. auto.
+      * intros a b x _ _ H1 H2. unfold zl in *. apply in_map_iff in H1, H2.
+        destruct H1 as [? [<- _]], H2 as [? [E _]]. injection E. auto.
+    + intros a b x _ _ H1 H2. unfold yl, zl in *. apply in_flat_map in H1, H2.
+      destruct H1 as [? [_ H1]], H2 as [? [_ H2]]. apply in_map_iff in H1, H2.
+      destruct H1 as [? [<- _]], H2 as [? [E _]]. injection E. auto.
+  - intros a b x _ _ H1 H2. unfold xl, yl, zl in *. apply in_flat_map in H1, H2.
+    destruct H1 as [? [_ H1]], H2 as [? [_ H2]]. apply in_flat_map in H1, H2.
+    destruct H1 as [? [_ H1]], H2 as [? [_ H2]]. apply in_map_iff in H1, H2.
+    destruct H1 as [? [<- _]], H2 as [? [E _]]. injection E. auto.
+Qed.
+
+Lemma gcode_inj g c1 c2 : wfgrid g -> In c1 (gleaves g) -> In c2 (gleaves g) -> gcode c1 = gcode c2 -> c1 = c2.
+Proof.
+  intros W H1 H2 E. pose proof W as [Wx [Wy [Wz Wd]]].
+  destruct c1 as [[[ix iy] iz] p], c2 as [[[jx jy] jz] q].
+  apply in_gleaves in H1, H2. destruct H1 as [Hx [Hy [Hz Hp]]], H2 as [Jx [Jy [Jz Hq]]].
+  pose proof (key_width _ _ Hp (Wd _ _ _ Hx Hy Hz)) as K1.
+  pose proof (key_width _ _ Hq (Wd _ _ _ Jx Jy Jz)) as K2.
+  change (2 ^ 31) with 2147483648 in *.
+  unfold gcode in E.
+  destruct (key_block_full ix iy iz (code p)) as [A1 B1]; try lia.
+  destruct (key_block_full jx jy jz (code q)) as [A2 B2]; try lia.
+  rewrite E in A1, B1. rewrite A2 in A1. rewrite B2 in B1. injection A1 as -> -> ->.
+  f_equal. apply code_inj; [eapply in_leaves_digits; eauto|eapply in_leaves_digits; eauto|congruence].
+Qed.
+
+Lemma NoDup_map_inj_on {A B} (f : A -> B) (l : list A) :
+  NoDup l -> (forall a b, In a l -> In b l -> f a = f b -> a = b) -> NoDup (map f l).
+Proof.
+  induction l as [|c l IH]; intros H S; cbn [map]; [constructor|].
+  inversion H as [|? ? Hn Hl]; subst. constructor.
+  - intros Hi. apply in_map_iff in Hi. destruct Hi as [c' [E Hc']].
+    assert (c' = c) by (apply S; [right; exact Hc'|left; reflexivity|exact E]).
+    subst. contradiction.
+  - apply IH; [exact Hl|]. intros a b Ha Hb. apply S; right; assumption.
+Qed.
+
+Theorem grid_keys_NoDup g : wfgrid g -> NoDup (map gcode (gleaves g)).
+Proof.
+  intros W. apply NoDup_map_inj_on; [apply gleaves_NoDup|].
+  intros a b Ha Hb. apply (gcode_inj g); assumption.
+Qed.
+
+(* ------------------------------------------------------------------------- *)
+(* AMRGrid: position -> key                                                   *)
+
+Definition wfgeom (g : grid) (n : nat) : Prop :=
+  (exists sx, okside n sx /\ bsx (gbox g) = gnx g * sx) /\
+  (exists sy, okside n sy /\ bsy (gbox g) = gny g * sy) /\
+  (exists sz, okside n sz /\ bsz (gbox g) = gnz g * sz) /\
+  forall ix iy iz, 0 <= ix < gnx g -> 0 <= iy < gny g -> 0 <= iz < gnz g -> (depth (blk g ix iy iz) <= n)%nat.
+
+Lemma block_axis n s a p : 0 < n -> 0 < s -> a <= p < a + n * s ->
+  let i := block_idx n p a (n * s) in
+  0 <= i < n /\ a + i * (n * s / n) <= p < a + i * (n * s / n) + n * s / n.
+Proof.
+  intros Hn Hs Hp. cbv zeta. unfold block_idx.
+  rewrite Z.div_mul_cancel_l by lia. rewrite (Z.mul_comm n s), Z.div_mul by lia.
+  pose proof (Z.div_mod (p - a) s ltac:(lia)) as DM. pose proof (Z.mod_pos_bound (p - a) s Hs) as MB.
+  assert (0 <= (p - a) / s) by (apply Z.div_pos; lia).
+  assert ((p - a) / s < n) by (apply Z.div_lt_upper_bound; nia).
+  split; [lia|]. lia.
+Qed.
+
+Lemma block_axis_unique s a p i j : 0 < s ->
+  a + i * s <= p < a + i * s + s -> a + j * s <= p < a + j * s + s -> i = j.
+Proof. intros Hs H1 H2. nia. Qed.
+
+Lemma block_box_ok g n ix iy iz : wfgrid g -> wfgeom g n -> okbox n (block_box g ix iy iz).
+Proof.
+  intros [Wx [Wy [Wz _]]] [[sx [Ox Ex]] [[sy [Oy Ey]] [[sz [Oz Ez]] _]]].
+  unfold okbox, block_box; cbn [bsx bsy bsz]. rewrite Ex, Ey, Ez.
+  rewrite (Z.mul_comm (gnx g)), (Z.mul_comm (gny g)), (Z.mul_comm (gnz g)), !Z.div_mul by lia. auto.
+Qed.
+
+Theorem grid_get_key_spec g n p : wfgrid g -> wfgeom g n -> inbox p (gbox g) ->
+  exists c, In c (gleaves g) /\ grid_get_key g p = gcode c /\ inbox p (gcell_box g c).
+Proof.
+  intros W G Hp. pose proof W as [Wx [Wy [Wz Wd]]].
+  pose proof G as [[sx [Ox Ex]] [[sy [Oy Ey]] [[sz [Oz Ez]] Gd]]].
+  pose proof (okside_pos _ _ Ox). pose proof (okside_pos _ _ Oy). pose proof (okside_pos _ _ Oz).
+  destruct Hp as [Px [Py Pz]]. rewrite Ex in Px. rewrite Ey in Py. rewrite Ez in Pz.
+  pose proof (block_axis (gnx g) sx _ _ ltac:(lia) ltac:(lia) Px) as Ax.
+  pose proof (block_axis (gny g) sy _ _ ltac:(lia) ltac:(lia) Py) as Ay.
+  pose proof (block_axis (gnz g) sz _ _ ltac:(lia) ltac:(lia) Pz) as Az.
+  cbv zeta in Ax, Ay, Az. rewrite <- Ex in Ax. rewrite <- Ey in Ay. rewrite <- Ez in Az.
+  unfold grid_get_key.
+  set (ix := block_idx (gnx g) (vx p) (bax (gbox g)) (bsx (gbox g))) in *.
+  set (iy := block_idx (gny g) (vy p) (bay (gbox g)) (bsy (gbox g))) in *.
+  set (iz := block_idx (gnz g) (vz p) (baz (gbox g)) (bsz (gbox g))) in *.
+  destruct Ax as [Rx Ax], Ay as [Ry Ay], Az as [Rz Az].
+  assert (Hin : inbox p (block_box g ix iy iz)).
+  { unfold inbox, block_box; cbn [bax bay baz bsx bsy bsz]. auto. }
+  destruct (get_key_spec (blk g ix iy iz) 0 p (block_box g ix iy iz) n ltac:(lia) (Gd _ _ _ Rx Ry Rz)
+              (block_box_ok g n ix iy iz W G) Hin) as [q [Hq [Ek Hb]]].
+  exists (ix, iy, iz, q). split; [apply in_gleaves; auto|]. split.
+  - unfold gcode. rewrite Ek, P8_0. f_equal. lia.
+  - exact Hb.
+Qed.
+
+Theorem grid_cells_disjoint g n p c1 c2 : wfgrid g -> wfgeom g n ->
+  In c1 (gleaves g) -> In c2 (gleaves g) -> inbox p (gcell_box g c1) -> inbox p (gcell_box g c2) -> c1 = c2.
+Proof.
+  intros W G H1 H2 B1 B2. pose proof W as [Wx [Wy [Wz Wd]]].
+  pose proof G as [[sx [Ox Ex]] [[sy [Oy Ey]] [[sz [Oz Ez]] Gd]]].
+  pose proof (okside_pos _ _ Ox). pose proof (okside_pos _ _ Oy). pose proof (okside_pos _ _ Oz).
+  destruct c1 as [[[ix iy] iz] q1], c2 as [[[jx jy] jz] q2].
+  apply in_gleaves in H1, H2. destruct H1 as [Hx [Hy [Hz Hq1]]], H2 as [Jx [Jy [Jz Hq2]]].
+  cbn [gcell_box] in B1, B2.
+  assert (L1 : (length q1 <= n)%nat).
+  { pose proof (proj1 (Forall_forall _ _) (leaves_length _) _ Hq1) as L. cbv beta in L.
+    pose proof (Gd _ _ _ Hx Hy Hz). lia. }
+  assert (L2 : (length q2 <= n)%nat).
+  { pose proof (proj1 (Forall_forall _ _) (leaves_length _) _ Hq2) as L. cbv beta in L.
+    pose proof (Gd _ _ _ Jx Jy Jz). lia. }
+  assert (I1 : inbox p (block_box g ix iy iz)).
+  { apply (inbox_path_in p q1); [eapply in_leaves_digits; eauto| |exact B1].
+    eapply okbox_le; [exact L1|apply block_box_ok; assumption]. }
+  assert (I2 : inbox p (block_box g jx jy jz)).
+  { apply (inbox_path_in p q2); [eapply in_leaves_digits; eauto| |exact B2].
+    eapply okbox_le; [exact L2|apply block_box_ok; assumption]. }
+  unfold inbox, block_box in I1, I2; cbn [bax bay baz bsx bsy bsz] in I1, I2.
+  rewrite Ex, Ey, Ez in I1, I2.
+  rewrite (Z.mul_comm (gnx g)), (Z.mul_comm (gny g)), (Z.mul_comm (gnz g)), !Z.div_mul in I1, I2 by lia.
+  destruct I1 as [X1 [Y1 Z1]], I2 as [X2 [Y2 Z2]].
+  assert (ix = jx) by (eapply block_axis_unique; [|exact X1|exact X2]; lia).
+  assert (iy = jy) by (eapply block_axis_unique; [|exact Y1|exact Y2]; lia).
+  assert (iz = jz) by (eapply block_axis_unique; [|exact Z1|exact Z2]; lia).
+  subst jx jy jz. f_equal.
+  eapply (leaf_boxes_disjoint (blk g ix iy iz) p (block_box g ix iy iz) n); eauto.
+  apply block_box_ok; assumption.
+Qed.
+
+(* ------------------------------------------------------------------------- *)
+(* AMRGrid: volumes                                                           *)
+
+Lemma zsum_flat_map {A} (F : A -> Z) {B} (f : B -> list A) l :
+  zsum (map F (flat_map f l)) = zsum (map (fun b => zsum (map F (f b))) l).
+Proof. induction l as [|b l IH]; [reflexivity|]. cbn [flat_map map zsum]. rewrite map_app, zsum_app, IH. reflexivity. Qed.
+
+Lemma zsum_const {A} (f : A -> Z) c l : (forall a, In a l -> f a = c) -> zsum (map f l) = Z.of_nat (length l) * c.
+Proof.
+  induction l as [|a l IH]; intros H; [reflexivity|].
+  cbn [map zsum length]. rewrite IH by (intros; apply H; right; assumption).
+  rewrite (H a) by (left; reflexivity). lia.
+Qed.
+
+Lemma zrange_length n : 0 <= n -> Z.of_nat (length (zrange n)) = n.
+Proof. intros. unfold zrange. rewrite map_length, seq_length. lia. Qed.
+
+Theorem grid_volume_sum g n : wfgrid g -> wfgeom g n ->
+  zsum (map (fun c => volume (gcell_box g c)) (gleaves g)) = volume (gbox g).
+Proof.
+  intros W G. pose proof W as [Wx [Wy [Wz Wd]]].
+  pose proof G as [[sx [Ox Ex]] [[sy [Oy Ey]] [[sz [Oz Ez]] Gd]]].
+  assert (Hz : forall ix iy iz, 0 <= ix < gnx g -> 0 <= iy < gny g -> 0 <= iz < gnz g ->
+             zsum (map (fun c => volume (gcell_box g c)) (zl g ix iy iz)) = sx * sy * sz).
+  { intros ix iy iz Hx Hy Hz. unfold zl. rewrite map_map. cbn [gcell_box].
+    rewrite (volume_sum (blk g ix iy iz) (block_box g ix iy iz) n (Gd _ _ _ Hx Hy Hz) (block_box_ok g n ix iy iz W G)).
+    unfold volume, block_box; cbn [bsx bsy bsz]. rewrite Ex, Ey, Ez.
+    rewrite (Z.mul_comm (gnx g)), (Z.mul_comm (gny g)), (Z.mul_comm (gnz g)), !Z.div_mul by lia. reflexivity. }
+  rewrite gleaves_xl, zsum_flat_map.
+  rewrite (zsum_const _ (gny g * (gnz g * (sx * sy * sz)))).
+  - rewrite zrange_length by lia. unfold volume. rewrite Ex, Ey, Ez. ring.
+  - intros ix Hx. apply in_zrange in Hx. unfold xl. rewrite zsum_flat_map.
+    rewrite (zsum_const _ (gnz g * (sx * sy * sz))).
+    + rewrite zrange_length by lia. reflexivity.
+    + intros iy Hy. apply in_zrange in Hy. unfold yl. rewrite zsum_flat_map.
+      rewrite (zsum_const _ (sx * sy * sz)).
+      * rewrite zrange_length by lia. reflexivity.
+      * intros iz Hz'. apply in_zrange in Hz'. apply Hz; assumption.
+Qed.
+
+(* AMRGrid::operator[] and refine_cell at grid level *)
+Theorem grid_cell_of_key_spec g c : wfgrid g -> In c (gleaves g) ->
+  grid_cell_of_key g (gcode c) =
+  Some (Leaf, gcell_box g c, Z.of_nat (length (snd c))).
+Proof.
+  intros W H. pose proof W as [Wx [Wy [Wz Wd]]]. destruct c as [[[ix iy] iz] p].
+  apply in_gleaves in H. destruct H as [Hx [Hy [Hz Hp]]].
+  pose proof (key_width _ _ Hp (Wd _ _ _ Hx Hy Hz)) as K. change (2 ^ 31) with 2147483648 in K.
+  unfold grid_cell_of_key, gcode.
+  destruct (key_block_full ix iy iz (code p)) as [A B]; try lia.
+  rewrite A, B. rewrite (cell_of_key_spec _ p _ 0 Hp). reflexivity.
+Qed.
+
+Theorem grid_refine_spec g c : wfgrid g -> In c (gleaves g) -> (length (snd c) < 10)%nat ->
+  exists g', grid_refine g (gcode c) =
+             Some (g', gcode (fst c, snd c ++ [0])) /\
+    gbox g' = gbox g /\ gnx g' = gnx g /\ gny g' = gny g /\ gnz g' = gnz g /\
+    forall c', In c' (gleaves g') <-> (In c' (gleaves g) /\ c' <> c) \/ (exists d, 0 <= d < 8 /\ c' = (fst c, snd c ++ [d])).
+Proof.
+  intros W H Hlen. pose proof W as [Wx [Wy [Wz Wd]]]. destruct c as [[[ix iy] iz] p].
+  cbn [fst snd] in *.
+  pose proof H as H'. apply in_gleaves in H. destruct H as [Hx [Hy [Hz Hp]]].
+  pose proof (key_width _ _ Hp (Wd _ _ _ Hx Hy Hz)) as K. change (2 ^ 31) with 2147483648 in K.
+  unfold grid_refine, gcode.
+  destruct (key_block_full ix iy iz (code p)) as [A B]; try lia.
+  rewrite A, B.
+  destruct (refine_spec (blk g ix iy iz) p Hp) as [t' [Er Hl]]. rewrite Er.
+  eexists. split; [f_equal; f_equal|].
+  - rewrite high_part by (try lia; change (2 ^ 32) with 4294967296; lia).
+    rewrite !full_key_val. lia.
+  - cbn [gbox gnx gny gnz]. repeat split; try reflexivity.
+    + intros Hc'. destruct c' as [[[jx jy] jz] q]. apply in_gleaves in Hc'. cbn [gnx gny gnz blk] in Hc'.
+      destruct Hc' as [Jx [Jy [Jz Hq]]].
+      destruct ((jx =? ix) && (jy =? iy) && (jz =? iz)) eqn:E.
+      * apply andb_prop in E. destruct E as [E E3]. apply andb_prop in E. destruct E as [E1 E2].
+        apply Z.eqb_eq in E1, E2, E3. subst jx jy jz.
+        apply Hl in Hq. destruct Hq as [[Hq Hne]|[d [Hd ->]]].
+        -- left. split; [apply in_gleaves; auto|congruence].
+        -- right. exists d. auto.
+      * left. split; [apply in_gleaves; auto|]. intros E'. injection E' as -> -> -> ->.
+        rewrite !Z.eqb_refl in E. discriminate.
+    + intros [[Hc' Hne]|[d [Hd ->]]].
+      * destruct c' as [[[jx jy] jz] q]. apply in_gleaves in Hc'. destruct Hc' as [Jx [Jy [Jz Hq]]].
+        apply in_gleaves. cbn [gnx gny gnz blk]. repeat split; try lia.
+        destruct ((jx =? ix) && (jy =? iy) && (jz =? iz)) eqn:E; [|exact Hq].
+        apply andb_prop in E. destruct E as [E E3]. apply andb_prop in E. destruct E as [E1 E2].
+        apply Z.eqb_eq in E1, E2, E3. subst jx jy jz.
+        apply Hl. left. split; [exact Hq|congruence].
+      * apply in_gleaves. cbn [gnx gny gnz blk]. repeat split; try lia.
+        rewrite !Z.eqb_refl. cbn [andb]. apply Hl. right. exists d. auto.
+Qed.
+
+(* ------------------------------------------------------------------------- *)
+(* B.  Morton keys                                                            *)
+
+(* interleave of the k low bits, lowest bit triple in the lowest three key bits *)
+Fixpoint ileave (k : nat) (x y z : Z) : Z :=
+  match k with
+  | O => 0
+  | S k' => 8 * ileave k' (x / 2) (y / 2) (z / 2) + (4 * (x mod 2) + 2 * (y mod 2) + z mod 2)
+  end.
+
+Lemma land_pow2_test a i : 0 <= i -> (0 <? Z.land a (2 ^ i)) = Z.testbit a i.
+Proof.
+  intros Hi.
+  assert (E : Z.land a (2 ^ i) = if Z.testbit a i then 2 ^ i else 0).
+  { apply Z.bits_inj'. intros n Hn. rewrite Z.land_spec, Z.pow2_bits_eqb by lia.
+    destruct (Z.eqb_spec i n) as [->|Hne].
+    - destruct (Z.testbit a n); [rewrite Z.pow2_bits_eqb, Z.eqb_refl by lia; reflexivity|rewrite Z.bits_0; reflexivity].
+    - rewrite andb_false_r. destruct (Z.testbit a i); [rewrite Z.pow2_bits_eqb by lia|rewrite Z.bits_0];
+        [apply Z.eqb_neq in Hne; rewrite Hne|]; reflexivity. }
+  rewrite E. destruct (Z.testbit a i); [apply Z.ltb_lt, Z.pow_pos_nonneg; lia|reflexivity].
+Qed.
+
+Lemma b2z_testbit a i : 0 <= i -> b2z (Z.testbit a i) = (a / 2 ^ i) mod 2.
+Proof. intros Hi. rewrite <- Z.testbit_spec' by lia. destruct (Z.testbit a i); reflexivity. Qed.
+
+Lemma ci_val (a b c : bool) :
+  Z.lor (Z.lor (Z.shiftl (b2z a) 2) (Z.shiftl (b2z b) 1)) (b2z c) = 4 * b2z a + 2 * b2z b + b2z c.
+Proof. destruct a, b, c; reflexivity. Qed.
+
+Lemma div_pow2_succ a n : 0 <= n -> a / 2 ^ n / 2 = a / 2 ^ (n + 1).
+Proof. intros. rewrite Z.div_div by (try apply Z.pow_nonzero; lia). rewrite Z.pow_add_r by lia. reflexivity. Qed.
+
+(* the loop, started with the interleave of the bits above bit n, ends with the interleave of all bits *)
+Lemma morton_loop_spec : forall n k x y z,
+  morton_loop n x y z (2 ^ (Z.of_nat n - 1)) (ileave k (x / 2 ^ Z.of_nat n) (y / 2 ^ Z.of_nat n) (z / 2 ^ Z.of_nat n))
+  = ileave (n + k) x y z.
+Proof.
+  induction n as [|n IH]; intros k x y z.
+  - cbn [morton_loop Nat.add]. change (2 ^ Z.of_nat 0) with 1. rewrite !Z.div_1_r. reflexivity.
+  - cbn [morton_loop]. rewrite Nat2Z.inj_succ. unfold Z.succ.
+    replace (Z.of_nat n + 1 - 1) with (Z.of_nat n) by lia.
+    rewrite !land_pow2_test, ci_val, !b2z_testbit, shl3 by lia.
+    rewrite Z.shiftr_div_pow2 by lia. change (2 ^ 1) with 2.
+    assert (E : 2 ^ Z.of_nat n / 2 = 2 ^ (Z.of_nat n - 1) \/ n = O).
+    { destruct n as [|m]; [right; reflexivity|left].
+      rewrite Nat2Z.inj_succ. unfold Z.succ. rewrite Z.pow_add_r by lia. change (2 ^ 1) with 2.
+      rewrite Z.div_mul by lia. f_equal. lia. }
+    replace (Nat.add (S n) k) with (Nat.add n (S k)) by lia.
+    rewrite <- IH. cbn [ileave]. rewrite !div_pow2_succ by lia.
+    destruct E as [E| ->]; [rewrite E; f_equal; lia|].
+    cbn [morton_loop]. lia.
+Qed.
+
+Lemma morton_ileave x y z : 0 <= x < 2 ^ 21 -> 0 <= y < 2 ^ 21 -> 0 <= z < 2 ^ 21 ->
+  morton x y z = ileave 21 x y z.
+Proof.
+  intros Hx Hy Hz. unfold morton.
+  pose proof (morton_loop_spec 21 0 x y z) as H. cbn [ileave] in H.
+  change (Z.of_nat 21 - 1) with 20 in H. change (2 ^ 20) with 1048576 in H.
+  replace (21 + 0)%nat with 21%nat in H by reflexivity. exact H.
+Qed.
+
+Lemma ileave_range k x y z : 0 <= ileave k x y z < 2 ^ (3 * Z.of_nat k).
+Proof.
+  revert x y z. induction k as [|k IH]; intros x y z.
+  - cbn. lia.
+  - cbn [ileave]. rewrite Nat2Z.inj_succ. unfold Z.succ.
+    replace (3 * (Z.of_nat k + 1)) with (3 + 3 * Z.of_nat k) by lia. rewrite Z.pow_add_r by lia.
+    change (2 ^ 3) with 8. specialize (IH (x / 2) (y / 2) (z / 2)).
+    pose proof (Z.mod_pos_bound x 2 ltac:(lia)). pose proof (Z.mod_pos_bound y 2 ltac:(lia)).
+    pose proof (Z.mod_pos_bound z 2 ltac:(lia)). lia.
+Qed.
+
+Lemma land1 a : Z.land a 1 = a mod 2.
+Proof. change 1 with (Z.ones 1). rewrite Z.land_ones by lia. reflexivity. Qed.
+
+Lemma demorton_ileave k : forall x y z,
+  demorton k (ileave k x y z) = (x mod 2 ^ Z.of_nat k, y mod 2 ^ Z.of_nat k, z mod 2 ^ Z.of_nat k).
+Proof.
+  induction k as [|k IH]; intros x y z.
+  - cbn [demorton ileave]. change (2 ^ Z.of_nat 0) with 1. rewrite !Z.mod_1_r. reflexivity.
+  - cbn [demorton ileave].
+    pose proof (Z.mod_pos_bound x 2 ltac:(lia)) as Bx. pose proof (Z.mod_pos_bound y 2 ltac:(lia)) as By.
+    pose proof (Z.mod_pos_bound z 2 ltac:(lia)) as Bz.
+    set (I := ileave k (x / 2) (y / 2) (z / 2)).
+    set (a := x mod 2) in *. set (b := y mod 2) in *. set (c := z mod 2) in *.
+    assert (E3 : Z.shiftr (8 * I + (4 * a + 2 * b + c)) 3 = I).
+    { rewrite shr3. symmetry. apply Z.div_unique with (r := 4 * a + 2 * b + c); [left; lia|lia]. }
+    rewrite E3. unfold I. rewrite IH. fold I.
+    rewrite !land1, !Z.shiftr_div_pow2 by lia.
+    change (2 ^ 1) with 2. change (2 ^ 2) with 4.
+    assert (Ea : (8 * I + (4 * a + 2 * b + c)) / 4 mod 2 = a).
+    { assert (Q : (8 * I + (4 * a + 2 * b + c)) / 4 = 2 * I + a)
+        by (symmetry; apply Z.div_unique with (r := 2 * b + c); [left; lia|lia]).
+      rewrite Q. symmetry. apply Z.mod_unique with (q := I); [left; lia|lia]. }
+    assert (Eb : (8 * I + (4 * a + 2 * b + c)) / 2 mod 2 = b).
+    { assert (Q : (8 * I + (4 * a + 2 * b + c)) / 2 = 2 * (2 * I + a) + b)
+        by (symmetry; apply Z.div_unique with (r := c); [left; lia|lia]).
+      rewrite Q. symmetry. apply Z.mod_unique with (q := 2 * I + a); [left; lia|lia]. }
+    assert (Ec : (8 * I + (4 * a + 2 * b + c)) mod 2 = c).
+    { symmetry. apply Z.mod_unique with (q := 4 * I + 2 * a + b); [left; lia|lia]. }
+    rewrite Ea, Eb, Ec. rewrite Nat2Z.inj_succ. unfold Z.succ.
+    assert (R : forall v, 2 * ((v / 2) mod 2 ^ Z.of_nat k) + v mod 2 = v mod 2 ^ (Z.of_nat k + 1)).
+    { intros v. rewrite (Z.add_comm (Z.of_nat k) 1), Z.pow_add_r by lia. change (2 ^ 1) with 2.
+      rewrite Z.rem_mul_r by (try apply Z.pow_pos_nonneg; lia). lia. }
+    unfold a, b, c. rewrite !R. reflexivity.
+Qed.
+
+Theorem demorton_morton x y z : 0 <= x < 2 ^ 21 -> 0 <= y < 2 ^ 21 -> 0 <= z < 2 ^ 21 ->
+  demorton 21 (morton x y z) = (x, y, z).
+Proof.
+  intros Hx Hy Hz. rewrite morton_ileave by assumption. rewrite demorton_ileave.
+  change (2 ^ Z.of_nat 21) with (2 ^ 21). rewrite !Z.mod_small by assumption. reflexivity.
+Qed.
+
+Theorem morton_injective x y z x' y' z' :
+  0 <= x < 2 ^ 21 -> 0 <= y < 2 ^ 21 -> 0 <= z < 2 ^ 21 ->
+  0 <= x' < 2 ^ 21 -> 0 <= y' < 2 ^ 21 -> 0 <= z' < 2 ^ 21 ->
+  morton x y z = morton x' y' z' -> (x, y, z) = (x', y', z').
+Proof.
+  intros Hx Hy Hz Hx' Hy' Hz' E.
+  rewrite <- (demorton_morton x y z), <- (demorton_morton x' y' z') by assumption. rewrite E. reflexivity.
+Qed.
+
+Theorem morton_width x y z : 0 <= x < 2 ^ 21 -> 0 <= y < 2 ^ 21 -> 0 <= z < 2 ^ 21 ->
+  0 <= morton x y z < 2 ^ 63.
+Proof. intros. rewrite morton_ileave by assumption. apply (ileave_range 21). Qed.
+
+(* the key orders cells like the octants of the recursive subdivision: the top three bits are the
+   octant of the top coordinate bits *)
+Lemma morton_loop_S n x y z mask key :
+  morton_loop (S n) x y z mask key =
+  morton_loop n x y z (Z.shiftr mask 1)
+    (Z.shiftl key 3 + Z.lor (Z.lor (Z.shiftl (b2z (0 <? Z.land x mask)) 2) (Z.shiftl (b2z (0 <? Z.land y mask)) 1))
+                            (b2z (0 <? Z.land z mask))).
+Proof. reflexivity. Qed.
+
+Lemma morton_loop_key : forall n k key x y z,
+  morton_loop n x y z k key = key * 2 ^ (3 * Z.of_nat n) + morton_loop n x y z k 0.
+Proof.
+  induction n as [|n IH]; intros k key x y z.
+  - cbn [morton_loop]. change (2 ^ (3 * Z.of_nat 0)) with 1. lia.
+  - rewrite !morton_loop_S. rewrite IH. rewrite (IH _ (Z.shiftl 0 3 + _)). rewrite shl3.
+    change (Z.shiftl 0 3) with 0. rewrite Nat2Z.inj_succ. unfold Z.succ.
+    replace (3 * (Z.of_nat n + 1)) with (3 + 3 * Z.of_nat n) by lia. rewrite Z.pow_add_r by lia.
+    change (2 ^ 3) with 8. ring.
+Qed.
+
+Theorem morton_octant x y z : 0 <= x < 2 ^ 21 -> 0 <= y < 2 ^ 21 -> 0 <= z < 2 ^ 21 ->
+  morton x y z / 2 ^ 60 = 4 * (x / 2 ^ 20) + 2 * (y / 2 ^ 20) + z / 2 ^ 20.
+Proof.
+  intros Hx Hy Hz. unfold morton. change 21%nat with (S 20). rewrite morton_loop_S.
+  change (Z.shiftl 0 3) with 0.
+  change 1048576 with (2 ^ 20). rewrite !land_pow2_test, ci_val, !b2z_testbit by lia.
+  change (Z.shiftr (2 ^ 20) 1) with (2 ^ 19).
+  assert (S : forall v, 0 <= v < 2 ^ 21 -> (v / 2 ^ 20) mod 2 = v / 2 ^ 20).
+  { intros v Hv. apply Z.mod_small. split; [apply Z.div_pos; lia|apply Z.div_lt_upper_bound; lia]. }
+  rewrite !S by assumption.
+  set (o := 4 * (x / 2 ^ 20) + 2 * (y / 2 ^ 20) + z / 2 ^ 20).
+  replace (0 + o) with o by lia.
+  rewrite morton_loop_key. change (3 * Z.of_nat 20) with 60.
+  assert (B : 0 <= morton_loop 20 x y z (2 ^ 19) 0 < 2 ^ 60).
+  { pose proof (morton_loop_spec 20 0 x y z) as H0. change (ileave 0 _ _ _) with 0 in H0.
+    change (Z.of_nat 20 - 1) with 19 in H0. rewrite H0. replace (20 + 0)%nat with 20%nat by reflexivity.
+    apply (ileave_range 20). }
+  symmetry. apply Z.div_unique with (r := morton_loop 20 x y z (2 ^ 19) 0); [left; lia|lia].
+Qed.
+
+(* ------------------------------------------------------------------------- *)
+(* C.  Cartesian grid                                                         *)
+
+Theorem indices_long ny nz ix iy iz : 0 <= ix -> 0 <= iy < ny -> 0 <= iz < nz ->
+  indices ny nz (long_index ny nz ix iy iz) = (ix, iy, iz).
+Proof.
+  intros Hx Hy Hz. unfold indices, long_index.
+  assert (Q1 : (ix * (ny * nz) + iy * nz + iz) / (ny * nz) = ix).
+  { symmetry. apply Z.div_unique with (r := iy * nz + iz); [left; nia|lia]. }
+  rewrite Q1.
+  replace (ix * (ny * nz) + iy * nz + iz - ix * ny * nz) with (iy * nz + iz) by lia.
+  assert (Q2 : (iy * nz + iz) / nz = iy).
+  { symmetry. apply Z.div_unique with (r := iz); [left; lia|lia]. }
+  rewrite Q2. f_equal. lia.
+Qed.
+
+Theorem long_indices nx ny nz l : 0 < ny -> 0 < nz -> 0 <= l < nx * ny * nz ->
+  let '(ix, iy, iz) := indices ny nz l in
+  0 <= ix < nx /\ 0 <= iy < ny /\ 0 <= iz < nz /\ long_index ny nz ix iy iz = l.
+Proof.
+  intros Hy Hz Hl. unfold indices, long_index.
+  pose proof (Z.div_mod l (ny * nz) ltac:(nia)) as D1.
+  pose proof (Z.mod_pos_bound l (ny * nz) ltac:(nia)) as B1.
+  set (ix := l / (ny * nz)) in *.
+  replace (l - ix * ny * nz) with (l mod (ny * nz)) by lia.
+  set (l1 := l mod (ny * nz)) in *.
+  pose proof (Z.div_mod l1 nz ltac:(lia)) as D2.
+  pose proof (Z.mod_pos_bound l1 nz Hz) as B2.
+  set (iy := l1 / nz) in *.
+  assert (0 <= ix) by (apply Z.div_pos; nia).
+  assert (ix < nx) by (apply Z.div_lt_upper_bound; nia).
+  assert (0 <= iy) by (apply Z.div_pos; lia).
+  assert (iy < ny) by (apply Z.div_lt_upper_bound; nia).
+  repeat split; try lia.
+Qed.
+
+Theorem long_index_range nx ny nz ix iy iz : 0 <= ix < nx -> 0 <= iy < ny -> 0 <= iz < nz ->
+  0 <= long_index ny nz ix iy iz < nx * ny * nz.
+Proof.
+  intros Hx Hy Hz. unfold long_index.
+  assert (0 <= ny * nz) by nia.
+  assert (iy * nz + iz < ny * nz) by nia.
+  assert (0 <= iy * nz) by nia.
+  assert (ix * (ny * nz) <= (nx - 1) * (ny * nz)) by (apply Z.mul_le_mono_nonneg_r; lia).
+  assert (0 <= ix * (ny * nz)) by nia.
+  split; [lia|]. replace (nx * ny * nz) with ((nx - 1) * (ny * nz) + ny * nz) by ring. lia.
+Qed.
+
+(* for (l = 0; l < nx*ny*nz; ++l): every index triple exactly once *)
+Theorem cartesian_enumeration nx ny nz : 0 < nx -> 0 < ny -> 0 < nz ->
+  NoDup (map (indices ny nz) (zrange (nx * ny * nz))) /\
+  forall ix iy iz, (0 <= ix < nx /\ 0 <= iy < ny /\ 0 <= iz < nz) <->
+                   In (ix, iy, iz) (map (indices ny nz) (zrange (nx * ny * nz))).
+Proof.
+  intros Hx Hy Hz. split.
+  - apply NoDup_map_inj_on; [apply zrange_NoDup|].
+    intros a b Ha Hb E. apply in_zrange in Ha, Hb.
+    pose proof (long_indices nx ny nz a Hy Hz Ha) as A. pose proof (long_indices nx ny nz b Hy Hz Hb) as B.
+    rewrite E in A. destruct (indices ny nz b) as [[ix iy] iz]. lia.
+  - intros ix iy iz. rewrite in_map_iff. split.
+    + intros [Rx [Ry Rz]]. exists (long_index ny nz ix iy iz). split.
+      * apply indices_long; lia.
+      * apply in_zrange. apply long_index_range; assumption.
+    + intros [l [E Hl]]. apply in_zrange in Hl.
+      pose proof (long_indices nx ny nz l Hy Hz Hl) as A. rewrite E in A. lia.
+Qed.
+
+(* the cell that get_cell_indices returns contains the position; no other cell does *)
+Theorem cell_index_contains m n k : 0 < m -> 0 <= k < n * m ->
+  0 <= cell_index m k < n /\ cell_lo m (cell_index m k) <= k < cell_hi m (cell_index m k) /\
+  forall i, cell_lo m i <= k < cell_hi m i -> i = cell_index m k.
+Proof.
+  intros Hm Hk. unfold cell_index, cell_lo, cell_hi.
+  pose proof (Z.div_mod k m ltac:(lia)) as D. pose proof (Z.mod_pos_bound k m Hm) as B.
+  assert (0 <= k / m) by (apply Z.div_pos; lia).
+  assert (k / m < n) by (apply Z.div_lt_upper_bound; nia).
+  repeat split; try lia. intros i Hi. nia.
+Qed.
+
+(* cell volumes sum to the box volume *)
+Theorem cartesian_volume nx ny nz mx my mz : 0 <= nx -> 0 <= ny -> 0 <= nz ->
+  zsum (map (fun _ => mx * my * mz) (zrange (nx * ny * nz))) = (nx * mx) * (ny * my) * (nz * mz).
+Proof.
+  intros. rewrite (zsum_const _ (mx * my * mz)) by reflexivity. rewrite zrange_length by nia. ring.
+Qed.
+
+(* neighbours along one axis are mutual, with and without periodic wrap *)
+Theorem ngb_axis_mutual n per i j : 0 < n -> 0 <= i < n ->
+  (ngb_high n per i = Some j -> 0 <= j < n /\ ngb_low n per j = Some i) /\
+  (ngb_low n per i = Some j -> 0 <= j < n /\ ngb_high n per j = Some i).
+Proof.
+  intros Hn Hi. unfold ngb_high, ngb_low. split; intros H.
+  - destruct (Z.ltb_spec i (n - 1)).
+    + injection H as <-. split; [lia|]. destruct (Z.ltb_spec 0 (i + 1)); [f_equal; lia|lia].
+    + destruct per; [|discriminate]. injection H as <-. split; [lia|].
+      destruct (Z.ltb_spec 0 0); [lia|]. f_equal. lia.
+  - destruct (Z.ltb_spec 0 i).
+    + injection H as <-. split; [lia|]. destruct (Z.ltb_spec (i - 1) (n - 1)); [f_equal; lia|lia].
+    + destruct per; [|discriminate]. injection H as <-. split; [lia|].
+      destruct (Z.ltb_spec (n - 1) (n - 1)); [lia|]. f_equal. lia.
+Qed.
+
+Definition wfc (g : cgrid) : Prop := 0 < cnx g /\ 0 < cny g /\ 0 < cnz g.
+Definition ctotal (g : cgrid) : Z := cnx g * cny g * cnz g.
+
+Lemma axis_cases (a : nat) : (a < 3)%nat -> a = 0%nat \/ a = 1%nat \/ a = 2%nat.
+Proof. lia. Qed.
+
+(* if l' is the neighbour of l through the upper (lower) face along an axis then l is the neighbour of l'
+   through its lower (upper) face along the same axis *)
+Theorem neighbours_mutual g l l' a high : wfc g -> (a < 3)%nat -> 0 <= l < ctotal g ->
+  neighbour g l a high = Some l' ->
+  0 <= l' < ctotal g /\ neighbour g l' a (negb high) = Some l.
+Proof.
+  intros [Wx [Wy Wz]] Ha Hl H. unfold neighbour, ctotal in *.
+  pose proof (long_indices (cnx g) (cny g) (cnz g) l Wy Wz Hl) as L.
+  destruct (indices (cny g) (cnz g) l) as [[ix iy] iz] eqn:El. destruct L as [Rx [Ry [Rz EL]]].
+  destruct (axis_cases a Ha) as [->|[->| ->]]; cbn [get_axis set_axis cn cper clong] in *.
+  - destruct ((if high then ngb_high else ngb_low) (cnx g) (cpx g) ix) as [j|] eqn:Ej; [|discriminate].
+    injection H as <-.
+    assert (M : 0 <= j < cnx g /\ (if negb high then ngb_high else ngb_low) (cnx g) (cpx g) j = Some ix).
+    { destruct high; cbn [negb]; [apply (ngb_axis_mutual (cnx g) (cpx g) ix j)|apply (ngb_axis_mutual (cnx g) (cpx g) ix j)]; auto. }
+    destruct M as [Rj Mj]. split; [apply long_index_range; assumption|].
+    rewrite indices_long by lia. cbn [get_axis set_axis]. rewrite Mj. f_equal. exact EL.
+  - destruct ((if high then ngb_high else ngb_low) (cny g) (cpy g) iy) as [j|] eqn:Ej; [|discriminate].
+    injection H as <-.
+    assert (M : 0 <= j < cny g /\ (if negb high then ngb_high else ngb_low) (cny g) (cpy g) j = Some iy).
+    { destruct high; cbn [negb]; [apply (ngb_axis_mutual (cny g) (cpy g) iy j)|apply (ngb_axis_mutual (cny g) (cpy g) iy j)]; auto. }
+    destruct M as [Rj Mj]. split; [apply long_index_range; assumption|].
+    rewrite indices_long by lia. cbn [get_axis set_axis]. rewrite Mj. f_equal. exact EL.
+  - destruct ((if high then ngb_high else ngb_low) (cnz g) (cpz g) iz) as [j|] eqn:Ej; [|discriminate].
+    injection H as <-.
+    assert (M : 0 <= j < cnz g /\ (if negb high then ngb_high else ngb_low) (cnz g) (cpz g) j = Some iz).
+    { destruct high; cbn [negb]; [apply (ngb_axis_mutual (cnz g) (cpz g) iz j)|apply (ngb_axis_mutual (cnz g) (cpz g) iz j)]; auto. }
+    destruct M as [Rj Mj]. split; [apply long_index_range; assumption|].
+    rewrite indices_long by lia. cbn [get_axis set_axis]. rewrite Mj. f_equal. exact EL.
+Qed.
+
+(* is_inside: after one step out of the grid the periodic wrap gives the index modulo n and moves the
+   position by whole box sides in the same sense; without periodicity the flag is the range test *)
+Theorem wrap_axis_spec n per i : 0 < n -> -1 <= i <= n ->
+  let '(inside, j, shift) := wrap_axis n per i in
+  (per = true -> inside = true /\ 0 <= j < n /\ j = i mod n /\ i + shift * n = j) /\
+  (per = false -> j = i /\ shift = 0 /\ (inside = true <-> 0 <= i < n)).
+Proof.
+  intros Hn Hi. unfold wrap_axis. destruct per.
+  - destruct (Z.ltb_spec i 0).
+    + destruct (Z.leb_spec n (n - 1)); [lia|]. split; [intros _|discriminate].
+      repeat split; try lia. apply Z.mod_unique with (q := -1); [left; lia|lia].
+    + destruct (Z.leb_spec n i).
+      * split; [intros _|discriminate]. repeat split; try lia.
+        apply Z.mod_unique with (q := 1); [left; lia|lia].
+      * split; [intros _|discriminate]. repeat split; try lia. symmetry. apply Z.mod_small. lia.
+  - split; [discriminate|intros _]. split; [reflexivity|]. split; [reflexivity|].
+    rewrite andb_true_iff, Z.leb_le, Z.ltb_lt. tauto.
+Qed.
+
+(* ------------------------------------------------------------------------- *)
+(* D.  pruned search                                                          *)
+
+Section SearchProof.
+  Context {P B : Type} (hit : P -> bool) (open : B -> bool).
+
+  (* the pruning rule is sound on a tree when a closed node has no hit below it *)
+  Fixpoint prune_ok (t : @stree P B) : Prop :=
+    match t with
+    | SLeaf _ => True
+    | SNode b ch => (open b = false -> forall p, In p (points (SNode b ch)) -> hit p = false) /\
+                    (fix all (l : list stree) : Prop := match l with [] => True | c :: r => prune_ok c /\ all r end) ch
+    end.
+
+  Lemma filter_none (l : list P) : (forall p, In p l -> hit p = false) -> filter hit l = [].
+  Proof.
+    induction l as [|a l IH]; intros H; [reflexivity|]. cbn [filter].
+    rewrite (H a) by (left; reflexivity). apply IH. intros p Hp. apply H. right; exact Hp.
+  Qed.
+
+  Lemma filter_flat_map {A} (f : A -> list P) l : filter hit (flat_map f l) = flat_map (fun a => filter hit (f a)) l.
+  Proof. induction l as [|a l IH]; [reflexivity|]. cbn [flat_map]. rewrite filter_app, IH. reflexivity. Qed.
+
+  Theorem search_is_brute : forall t, prune_ok t -> search hit open t = brute hit t.
+  Proof.
+    fix IH 1. intros [p|b ch] H.
+    - unfold brute. cbn [search points filter]. destruct (hit p); reflexivity.
+    - unfold brute. cbn [search]. destruct H as [Hc Hall]. destruct (open b) eqn:E.
+      + cbn [points]. rewrite filter_flat_map. clear Hc E.
+        induction ch as [|c r IHr]; [reflexivity|]. destruct Hall as [H1 H2].
+        cbn [flat_map]. rewrite (IH c H1). unfold brute. f_equal. apply IHr. exact H2.
+      + symmetry. apply filter_none. apply Hc. reflexivity.
+  Qed.
+End SearchProof.
+
+(* the geometric half of the pruning rule on one axis (Box::get_distance): the distance from a query to an
+   interval is not larger than its distance to any point of the interval *)
+Definition axis_dist (a s v : Z) : Z := if a <=? v then (if a + s <? v then v - a - s else 0) else v - a.
+
+Theorem axis_dist_lower a s v p : 0 <= s -> a <= p <= a + s -> Z.abs (axis_dist a s v) <= Z.abs (v - p).
+Proof.
+  intros Hs Hp. unfold axis_dist. destruct (Z.leb_spec a v); [destruct (Z.ltb_spec (a + s) v)|]; lia.
+Qed.
+
+(* ------------------------------------------------------------------------- *)
+(* the hypotheses of the theorems are satisfiable                             *)
+
+Definition ex_grid : grid := mkGrid (mkBox (-7) 0 5 (3 * 1024) 1024 (2 * 1024)) 3 1 2 (fun _ _ _ => uniform 2).
+
+Example ex_wfgrid : wfgrid ex_grid.
+Proof. unfold wfgrid, ex_grid; cbn [gnx gny gnz blk]. repeat split; try lia. intros. rewrite depth_uniform. lia. Qed.
+
+Example ex_okside : okside 10 1024.
+Proof. exists 1. split; [lia|reflexivity]. Qed.
+
+Example ex_wfgeom : wfgeom ex_grid 10.
+Proof.
+  unfold wfgeom, ex_grid; cbn [gbox gnx gny gnz blk bsx bsy bsz].
+  repeat split; try (exists 1024; split; [exact ex_okside|reflexivity]).
+  intros. rewrite depth_uniform. lia.
+Qed.
+
+Example ex_position : inbox (mkVec 3000 17 2052) (gbox ex_grid).
+Proof. unfold inbox, ex_grid; cbn. lia. Qed.
+
+Example ex_key : grid_get_key ex_grid (mkVec 3000 17 2052) = full_key 2 0 1 (code [5; 5]).
+Proof. vm_compute. reflexivity. Qed.
+
+Example ex_prune : prune_ok (fun p : Z => p <=? 3) (fun b : Z => b <=? 3)
+                            (SNode 1 [SLeaf 2; SNode 5 [SLeaf 7; SLeaf 5]; SLeaf 4]).
+Proof.
+  cbn. repeat split; try discriminate.
+  intros _ p [<-|[<-|[]]]; reflexivity.
 Qed.
